@@ -5,6 +5,7 @@ import (
 	"go/constant"
 	"go/token"
 	"go/types"
+	"sort"
 	"strings"
 	"time"
 
@@ -20,42 +21,50 @@ func init() {
 	register(&PropSpec{
 		ID:    "C02",
 		Title: "Only bytes matching their blobref, within the size cap, are ever accepted",
-		Explanation: "Decided (structural necessary conditions): " +
-			"R-entry — every non-test call of BlobReceiver.ReceiveBlob (any implementer, static or through an interface) and of blobserver.ReceiveNoHash is classified by computed acceptance idioms: inside blobserver.receive; delegation by a ReceiveBlob method of its own (ref, source) — the stream itself or a buffer filled by one checked, complete read of it and not touched since; the ref is blob.RefFromBytes/RefFromString of the very bytes/string/buffer/field that feed the reader; bytes hashed while read with HashMatches(ref)==true dominating; re-population from a checked Fetch of the same ref; a (ref,string) forwarding helper whose callers satisfy the ref-of-same-bytes idiom; or the destination's static type is a store whose own ReceiveBlob re-verifies the digest. Anything else is a violation; ReceiveNoHash/ReceiveBlob taken as a function value is undecided. Callers of blobserver.receive with checkHash != true are restricted to ReceiveNoHash. " +
-			"R-core — in blobserver.receive the reader handed to dst.ReceiveBlob is, unless checkHash is known false, a checkHashReader over io.LimitReader(src, MaxBlobSize) for the same ref with a non-nil br.Hash(); hub notification and every nil-error return are dominated by success of dst.ReceiveBlob; in checkHashReader.Read the bytes read are hashed before the comparison and the underlying error is returned unchanged only where it is known not to be EOF or HashMatches is known true. " +
-			"R-http — the PUT handler calls Receive on its own storage with the parsed ref only under ContentLength<=MaxBlobSize, Parse ok and IsSupported; every path on which Receive's error may be non-nil writes an error status, a success status only under err==nil; the multipart handler lists in UploadResponse.Received only results of Receive under err==nil of the (oversize-overridden) error. " +
-			"R-commit — for every ReceiveBlob implementation, every commit point (delegated receive, sorted.KeyValue Set/Delete/CommitBatch, VFS rename, store into a receiver-field map, and a short table of commit helpers/remote put calls) is the call that consumes the source or is dominated by the err==nil edge of a complete read of it (io.Copy/ReadAll/ReadFrom/delegation); the read error of a consumer is never discarded; stores that compare the digest themselves commit only under HashMatches==true; every nil-error return follows a successful consumer (R-verdict). " +
-			"NOT decided: that the hash functions compute the right digest; behaviour at exactly 16 MiB; fragmentation of readers; that opaque third-party upload calls (S3, Drive, Azure, GCS, mgo, the perkeep client) abort atomically when their body reader fails; aliasing beyond single-store locals, captured variables and receiver-rooted field paths; callees mutating a buffer they were not passed; what test-support packages do.",
+		Explanation: "Decided (structural necessary conditions). Every rule looks in EFFECTIVE BODIES: a function with its literals plus, transitively (depth 4), the declared functions of the same package it calls statically or starts with go; a helper's parameter stands for the caller's argument, a call's result for the value the helper returns on its success returns, the facts of a call site hold inside the helper, and the facts common to all success returns of a helper (or all returns of a boolean helper with that result) hold in the caller where its error is known nil; 'call P succeeded before site Q' carries across calls when every return of each helper in between that may report success is dominated by the err==nil edge of the inner call. Code run from defer statements and deferred literals is not part of an effective body. " +
+			"R-entry — every non-test call of BlobReceiver.ReceiveBlob (any implementer, static or through an interface) and of blobserver.ReceiveNoHash is classified by computed acceptance idioms, judged in the effective body of the enclosing top-level function: inside the verified core (see R-core); delegation by a ReceiveBlob method of its own (ref, source) — the stream itself or a buffer filled by one checked, complete read of it and not touched since; the ref is blob.RefFromBytes/RefFromString of the very bytes/string/buffer/field that feed the reader; bytes hashed while read with HashMatches(ref)==true dominating; re-population from a checked Fetch of the same ref; a (ref,string) forwarding helper whose callers satisfy one of the idioms; or the destination's static type is a store whose own ReceiveBlob re-verifies the digest. Where no idiom applies in the function itself and it is a helper whose static callers can all be enumerated (never used as a value or through an interface, same package), the site is judged in the effective body of every caller (recursively, depth 3): all must establish an idiom. Anything else is a violation; ReceiveNoHash/ReceiveBlob taken as a function value is undecided. " +
+			"R-core — anchored at the two exported entry points blobserver.Receive and blobserver.ReceiveNoHash (not at internal helpers): the effective body of each contains exactly one backend ReceiveBlob call, on the entry point's own dst and ref; the reader handed to it is, on every feasible path (conditions on flag parameters bound to constants by the caller are evaluated), for Receive the hash-checking reader (a struct holding br.Hash() known non-nil, the same ref, and io.LimitReader/&io.LimitedReader of the entry point's src with MaxBlobSize) and for ReceiveNoHash at least that LimitReader; hub notification (BlobHub.NotifyBlobReceived, with the SizedRef the backend returned) and every nil-error return are dominated by success of the backend call; the helpers between the entry points and the backend call may be called only from the core, any other caller must itself satisfy the obligations of the verified entry point; in the Read method of the hash-checking reader type (found from the value, not by name) the bytes read are hashed before the comparison and the underlying error is returned unchanged only where it is known not to be EOF or HashMatches is known true. " +
+			"R-http — anchored at the exported constructors CreatePutUploadHandler and CreateBatchUploadHandler: in the PUT handler's effective body Receive is called on the constructor's storage with the parsed ref only under ContentLength<=MaxBlobSize, Parse ok and IsSupported; every path on which Receive's error may be non-nil writes an error status (followed upwards through helpers that pass the error on), a success status only under err==nil; the multipart handler lists in UploadResponse.Received only results of Receive whose success dominates the listing, and the error guarding the listing merges Receive's error with a non-nil error raised when the part's byte counter (limited to MaxBlobSize+1) reached the limit. " +
+			"R-commit — for every ReceiveBlob implementation, every commit point of its effective body (delegated receive, sorted.KeyValue Set/Delete/CommitBatch, VFS rename, store into a map reachable from the receiver, and a three-entry table of calls into other packages/third-party clients) is the call that consumes the source or is dominated by the err==nil edge of a complete read of it (io.Copy/ReadAll/ReadFrom/delegation, possibly inside a helper); the read error of a consumer is never discarded; a helper that is handed bytes as a reader other than the source stream and commits is checked like a receiver of its own; stores that compare the digest themselves commit only under HashMatches==true; every nil-error return follows a successful consumer (R-verdict; a return of a helper's error is replaced by the helper's own returns). " +
+			"NOT decided: that the hash functions compute the right digest; behaviour at exactly 16 MiB; fragmentation of readers; that opaque third-party upload calls (S3, Drive, Azure, GCS, mgo, the perkeep client) abort atomically when their body reader fails; aliasing beyond single-store locals, captured variables, parameter-to-argument binding and receiver-rooted field paths; callees mutating a buffer they were not passed; helpers of other packages, helpers reached through function values or interfaces (an HTTP handler turned into a type with a ServeHTTP method is not followed and would be reported), effective bodies deeper than 4 calls or larger than 400 frames; what deferred code and test-support packages do.",
 		RuleDocs: map[string]string{
-			"R-entry":   "who-may-call: every call of BlobReceiver.ReceiveBlob / blobserver.ReceiveNoHash outside test support, classified by value-flow idioms (delegation of own source, ref computed from the same bytes, hash-verified buffer, re-population from Fetch, re-verifying destination type); callers of receive(checkHash=false)",
-			"R-core":    "blobserver.receive and checkHashReader.Read: value chain of the reader handed to the backend, nil-hash guard, notification and success returns dominated by ReceiveBlob success, EOF turned into ErrCorruptBlob unless the digest matches",
-			"R-http":    "PUT and multipart upload handlers: guards dominating Receive, error status on every failing path, Received list built only from successful verified receives, oversize override",
-			"R-commit":  "every ReceiveBlob implementation: commit points dominated by success of the call that consumes source; consumer errors not discarded; re-verifying stores commit under HashMatches==true",
-			"R-verdict": "every ReceiveBlob implementation: a nil-error return is dominated by success of a call that consumed source (the digest/size verdict of blobserver.Receive reaches a backend only as that read error)",
+			"R-entry":   "who-may-call: every call of BlobReceiver.ReceiveBlob / blobserver.ReceiveNoHash outside test support, classified by value-flow idioms over the effective body (delegation of own source, ref computed from the same bytes, hash-verified buffer, re-population from Fetch, re-verifying destination type, forwarding helper); a helper with enumerable callers is judged in each caller's effective body",
+			"R-core":    "the effective bodies of blobserver.Receive and ReceiveNoHash: one backend call on the own dst/ref, value chain of the reader handed to it on every feasible path, nil-hash guard, notification and success returns dominated by its success, who may call the shared helpers; Read of the hash-checking reader: EOF turned into ErrCorruptBlob unless the digest matches",
+			"R-http":    "PUT and multipart upload handlers (effective bodies of the exported constructors): guards dominating Receive, error status on every failing path, Received list built only from successful verified receives, oversize override",
+			"R-commit":  "every ReceiveBlob implementation: commit points of the effective body dominated by success of the call that consumes source; consumer errors not discarded; reader-taking commit helpers checked like receivers; re-verifying stores commit under HashMatches==true",
+			"R-verdict": "every ReceiveBlob implementation: a nil-error return (of the method or of the helper whose error it returns) is dominated by success of a call that consumed source (the digest/size verdict of blobserver.Receive reaches a backend only as that read error)",
 		},
 		Run:       runC02,
 		DesignRef: "DESIGN.md §4 C02",
-		Technique: "static analysis: type-resolved who-may-call with value-flow acceptance idioms, dominance on err==nil / HashMatches edges over go/ssa, forward taint of the source reader, path exploration for error responses",
-		LevelText: "Decides structural necessary conditions only: which code may hand bytes to a store without the hash check and why those bytes are the ones the ref was computed from; that the verified core wraps the size cap and the digest comparison and notifies only after success; that the HTTP handlers guard, report and list correctly on every CFG path; that every backend commits only after the read of source succeeded. Does not decide digests, the 16 MiB boundary behaviour, reader fragmentation or atomicity of third-party uploads.",
+		Technique: "static analysis: effective bodies (call-chain frames over same-package static callees with parameter/result binding, fact transfer and success summaries of helpers), type-resolved who-may-call with value-flow acceptance idioms, dominance on err==nil / HashMatches edges over go/ssa, forward taint of the source reader, path exploration for error responses",
+		LevelText: "Decides structural necessary conditions only: which code may hand bytes to a store without the hash check and why those bytes are the ones the ref was computed from; that the verified core wraps the size cap and the digest comparison and notifies only after success; that the HTTP handlers guard, report and list correctly on every CFG path; that every backend commits only after the read of source succeeded. The verdicts are invariant under extraction/inlining of same-package helpers, function splitting, closure-to-function conversion, renaming and the usual control-flow reshapings (the selftest holds 17 such behaviour-preserving variants that must stay silent). Does not decide digests, the 16 MiB boundary behaviour, reader fragmentation or atomicity of third-party uploads.",
 	})
 }
 
 // c02Ctx carries the resolved anchors of one run.
 type c02Ctx struct {
-	p        *Program
-	r        *Reporter
-	recv     *types.Interface // blobserver.BlobReceiver
-	kv       *types.Interface // sorted.KeyValue
-	vfs      *types.Interface // files.VFS
-	fetcher  *types.Interface // blob.Fetcher
-	ioReader *types.Interface
-	maxBlob  int64
-	reverify map[*ssa.Function]int // 0 unknown, 1 yes, 2 no
-	k5seen   map[string]bool
+	p           *Program
+	r           *Reporter
+	recv        *types.Interface // blobserver.BlobReceiver
+	kv          *types.Interface // sorted.KeyValue
+	vfs         *types.Interface // files.VFS
+	fetcher     *types.Interface // blob.Fetcher
+	ioReader    *types.Interface
+	maxBlob     int64
+	reverify    map[*ssa.Function]int // 0 unknown, 1 yes, 2 no
+	k5seen      map[string]bool
+	trees       map[*ssa.Function]*c02Tree
+	impliesMemo map[c02fc]c02verdict
+	core        map[*ssa.Function]bool // the entry points of the verified core and the helpers between them and the backend call
+	flagBad     map[string]string
+	hashReaders map[*types.Named]bool
 }
 
 func runC02(p *Program, r *Reporter) {
-	x := &c02Ctx{p: p, r: r, reverify: map[*ssa.Function]int{}, k5seen: map[string]bool{}}
+	x := &c02Ctx{p: p, r: r, reverify: map[*ssa.Function]int{}, k5seen: map[string]bool{}, trees: map[*ssa.Function]*c02Tree{},
+		impliesMemo: map[c02fc]c02verdict{}, core: map[*ssa.Function]bool{}, flagBad: map[string]string{}, hashReaders: map[*types.Named]bool{}}
+	c02NilRetMemo = map[*ssa.Function][]c02NilRet{}
+	defer func() { c02NilRetMemo = map[*ssa.Function][]c02NilRet{} }()
 	x.recv = p.Iface("pkg/blobserver", "BlobReceiver")
 	x.kv = p.Iface("pkg/sorted", "KeyValue")
 	x.vfs = p.Iface("pkg/blobserver/files", "VFS")
@@ -72,10 +81,14 @@ func runC02(p *Program, r *Reporter) {
 	x.maxBlob = c02ConstInt(p, "pkg/blobserver", "MaxBlobSize")
 	t0 := time.Now()
 	c02RuleCore(x)
+	t1 := time.Now()
 	c02RuleHTTP(x)
+	t2 := time.Now()
 	c02RuleCommit(x)
+	t3 := time.Now()
 	c02RuleEntry(x)
-	r.Note("C02 rules ran in %.2fs after loading", time.Since(t0).Seconds())
+	r.Note("C02 rules ran in %.2fs after loading (core %.2f, http %.2f, commit %.2f, entry %.2f)", time.Since(t0).Seconds(),
+		t1.Sub(t0).Seconds(), t2.Sub(t1).Seconds(), t3.Sub(t2).Seconds(), time.Since(t3).Seconds())
 }
 
 // ---------------------------------------------------------------------------
@@ -139,24 +152,6 @@ func c02EdgeFacts(pred, succ *ssa.BasicBlock) []CondFact {
 		}
 	}
 	return out
-}
-
-// c02Fact looks for a fact whose condition (after stripping negations) satisfies pred.
-func c02Fact(facts []CondFact, pred func(cond ssa.Value) bool) (known, val bool) {
-	for _, f := range facts {
-		cond, v := f.Cond, f.Val
-		for {
-			if u, ok := cond.(*ssa.UnOp); ok && u.Op == token.NOT {
-				cond, v = u.X, !v
-				continue
-			}
-			break
-		}
-		if pred(cond) || pred(originValue(cond)) {
-			return true, v
-		}
-	}
-	return false, false
 }
 
 // c02Incoming splits a value into (value, facts) pairs: one per phi edge, or
@@ -349,21 +344,16 @@ func c02CellVal(v ssa.Value) ssa.Value {
 	return out
 }
 
-// c02NilKnown is NilFact that also understands `x = f(); if x != nil` on a
-// variable whose address is taken elsewhere.
+// c02NilKnown reports what the facts at block b say about v being nil. Unlike
+// NilFact it never equates a phi with one of its operands: a test of a merged
+// error variable says something about an earlier error only through
+// c02NilClosure. It also understands `x = f(); if x != nil` on a variable
+// whose address is taken elsewhere.
 func c02NilKnown(b *ssa.BasicBlock, v ssa.Value) (known, isNil bool) {
-	if k, n := NilFact(b, v); k {
-		return k, n
-	}
-	for _, f := range FactsAt(b) {
-		cond, val := f.Cond, f.Val
-		for {
-			if u, ok := cond.(*ssa.UnOp); ok && u.Op == token.NOT {
-				cond, val = u.X, !val
-				continue
-			}
-			break
-		}
+	ov := originValue(v)
+	facts := FactsAt(b)
+	for _, f := range facts {
+		cond, val := c02StripNot(f.Cond, f.Val)
 		bo, ok := cond.(*ssa.BinOp)
 		if !ok || bo.Op != token.EQL && bo.Op != token.NEQ {
 			continue
@@ -376,26 +366,148 @@ func c02NilKnown(b *ssa.BasicBlock, v ssa.Value) (known, isNil bool) {
 		} else {
 			continue
 		}
-		if cv := c02CellVal(other); cv != nil && sameOrigin(cv, v) {
+		if other == v || originValue(other) == ov {
 			return true, (bo.Op == token.EQL) == val
+		}
+		if cv := c02CellVal(other); cv != nil && (cv == v || originValue(cv) == ov) {
+			return true, (bo.Op == token.EQL) == val
+		}
+	}
+	for _, nv := range c02NilClosure(facts, 0) {
+		if originValue(nv) == ov {
+			return true, true
+		}
+		if cv := c02CellVal(nv); cv != nil && originValue(cv) == ov {
+			return true, true
 		}
 	}
 	return false, false
 }
 
+// c02NilTested: the fact (cond==val) says that a value is nil; returns that value.
+func c02NilTested(cond ssa.Value, val bool) ssa.Value {
+	for {
+		if u, ok := cond.(*ssa.UnOp); ok && u.Op == token.NOT {
+			cond, val = u.X, !val
+			continue
+		}
+		break
+	}
+	bo, ok := cond.(*ssa.BinOp)
+	if !ok || bo.Op != token.EQL && bo.Op != token.NEQ {
+		return nil
+	}
+	var other ssa.Value
+	switch {
+	case IsNilConst(bo.Y):
+		other = bo.X
+	case IsNilConst(bo.X):
+		other = bo.Y
+	default:
+		return nil
+	}
+	if (bo.Op == token.EQL) != val {
+		return nil
+	}
+	return other
+}
+
+// c02NilClosure lists the values known nil under the facts, following phis
+// backwards: a phi that is nil arrived over an edge whose operand may be nil
+// (an edge whose own condition says the operand is non-nil, or whose operand
+// is a fresh error, is excluded); what holds on all remaining edges holds too.
+// This is how `err := f(); if err == nil { err = g() }; if err != nil { return }`
+// yields "f's error is nil" after the check.
+func c02NilClosure(facts []CondFact, depth int) []ssa.Value {
+	var out []ssa.Value
+	for _, f := range facts {
+		if v := c02NilTested(f.Cond, f.Val); v != nil {
+			out = append(out, v)
+			out = append(out, c02PhiNil(v, depth)...)
+		}
+	}
+	return out
+}
+
+func c02PhiNil(v ssa.Value, depth int) []ssa.Value {
+	ph, ok := originValue(v).(*ssa.Phi)
+	if !ok || depth > 4 {
+		return nil
+	}
+	var sets [][]ssa.Value
+	for i, e := range ph.Edges {
+		if isNonNilErrorExpr(e) {
+			continue
+		}
+		ef := c02EdgeFacts(ph.Block().Preds[i], ph.Block())
+		nonNil := false
+		for _, f := range ef {
+			cond, val := c02StripNot(f.Cond, f.Val)
+			bo, ok := cond.(*ssa.BinOp)
+			if !ok || bo.Op != token.EQL && bo.Op != token.NEQ {
+				continue
+			}
+			var other ssa.Value
+			switch {
+			case IsNilConst(bo.Y):
+				other = bo.X
+			case IsNilConst(bo.X):
+				other = bo.Y
+			default:
+				continue
+			}
+			if originValue(other) == originValue(e) && (bo.Op == token.EQL) != val {
+				nonNil = true
+			}
+		}
+		if nonNil {
+			continue
+		}
+		set := append([]ssa.Value{e}, c02PhiNil(e, depth+1)...)
+		set = append(set, c02NilClosure(ef, depth+1)...)
+		sets = append(sets, set)
+	}
+	if len(sets) == 0 {
+		return nil
+	}
+	var out []ssa.Value
+	for _, a := range sets[0] {
+		inAll := true
+		for _, s := range sets[1:] {
+			found := false
+			for _, b := range s {
+				if originValue(a) == originValue(b) {
+					found = true
+					break
+				}
+			}
+			if !found {
+				inAll = false
+				break
+			}
+		}
+		if inAll {
+			out = append(out, a)
+		}
+	}
+	return out
+}
+
 func c02SuccessDominates(c *ssa.Call, s ssa.Instruction) (bool, string) {
-	ok, why := SuccessDominates(c, s)
-	if ok || !Precedes(c, s) {
-		return ok, why
+	if !Precedes(c, s) {
+		return false, "call does not dominate the site"
 	}
 	ev, hasErr, disc := ErrValue(c)
-	if !hasErr || disc {
-		return ok, why
+	if !hasErr {
+		return true, ""
+	}
+	if disc {
+		return false, "error result of the call is discarded"
 	}
 	if k, isNil := c02NilKnown(s.Block(), ev); k && isNil {
 		return true, ""
 	}
-	return false, why
+	return false, "site is not on the err==nil edge of the call"
 }
 
 func c02IsBytesBufferPtr(t types.Type) bool {
@@ -502,102 +614,1227 @@ func (x *c02Ctx) isReceiveBlobImpl(fn *ssa.Function) bool {
 }
 
 // ---------------------------------------------------------------------------
+// Effective bodies.
+//
+// A rule that looks for a site "in function F" looks in F's effective body: F
+// (with its function literals) plus, transitively, the declared functions of
+// the same package that F calls statically. Every call chain is a frame. A
+// parameter of a frame stands for the caller's argument, a result of the call
+// for the value the helper returns on its success returns; branch facts of the
+// call site hold inside the helper, and the facts common to all success returns
+// of a helper hold in the caller where the helper's error is known nil.
+
+const (
+	c02MaxDepth  = 4
+	c02MaxFrames = 400
+)
+
+type c02Frame struct {
+	fn     *ssa.Function
+	parent *c02Frame
+	site   ssa.CallInstruction // the call or go statement (in parent.fn or one of its literals) that enters fn
+	depth  int
+	kids   map[ssa.Instruction]*c02Frame
+	tree   *c02Tree
+}
+
+// c02Loc is an instruction of a frame, c02LV a value of a frame.
+type c02Loc struct {
+	F  *c02Frame
+	In ssa.Instruction
+}
+
+type c02LV struct {
+	F *c02Frame
+	V ssa.Value
+}
+
+// c02EF is a branch fact: Cond (a value of frame F) evaluated to Val.
+type c02EF struct {
+	F    *c02Frame
+	Cond ssa.Value
+	Val  bool
+}
+
+type c02fb struct {
+	f *c02Frame
+	b *ssa.BasicBlock
+}
+
+type c02fi struct {
+	f *c02Frame
+	i int
+}
+
+type c02fbool struct {
+	f *c02Frame
+	v bool
+}
+
+type c02fc struct {
+	fn *ssa.Function
+	c  *ssa.Call
+}
+
+type c02verdict struct {
+	ok  bool
+	why string
+}
+
+type c02Tree struct {
+	x        *c02Ctx
+	root     *c02Frame
+	frames   []*c02Frame
+	factMemo map[c02fb][]c02EF
+	retFacts map[*c02Frame][]c02EF
+	retBool  map[c02fbool][]c02EF
+	retVals  map[c02fi]*c02LV
+	busy     map[c02fi]bool
+	capped   bool
+}
+
+// isHelper: callee belongs to the effective body of a function of root's package.
+func (x *c02Ctx) isHelper(root, callee *ssa.Function) bool {
+	if callee == nil || callee.Blocks == nil || callee.Parent() != nil || callee.Synthetic != "" || callee.Pkg == nil || callee.Pkg != root.Pkg {
+		return false
+	}
+	if x.isReceiveBlobImpl(callee) {
+		return false
+	}
+	if callee.Pkg.Pkg.Path() == c02BSPath {
+		switch callee.Name() {
+		case "Receive", "ReceiveNoHash", "ReceiveString":
+			return false // the property's own entry points: always anchors, never helpers
+		}
+	}
+	return true
+}
+
+func (x *c02Ctx) tree(root *ssa.Function) *c02Tree {
+	if t := x.trees[root]; t != nil {
+		return t
+	}
+	t := &c02Tree{x: x, factMemo: map[c02fb][]c02EF{}, retFacts: map[*c02Frame][]c02EF{}, retBool: map[c02fbool][]c02EF{},
+		retVals: map[c02fi]*c02LV{}, busy: map[c02fi]bool{}}
+	t.root = &c02Frame{fn: root, kids: map[ssa.Instruction]*c02Frame{}, tree: t}
+	x.trees[root] = t
+	queue := []*c02Frame{t.root}
+	made := 1
+	for len(queue) > 0 {
+		f := queue[0]
+		queue = queue[1:]
+		t.frames = append(t.frames, f)
+		if f.depth >= c02MaxDepth {
+			continue
+		}
+		c02AllInstrs(f.fn, func(lit *ssa.Function, in ssa.Instruction) {
+			call, ok := in.(ssa.CallInstruction)
+			if !ok {
+				return
+			}
+			if _, isDefer := in.(*ssa.Defer); isDefer {
+				return // runs at exit: not at this place of the body
+			}
+			for l := lit; l != nil && l != f.fn; l = l.Parent() {
+				if c02DeferredLiteral(l) {
+					return // inside a deferred literal: likewise
+				}
+			}
+			callee := call.Common().StaticCallee()
+			if !x.isHelper(root, callee) {
+				return
+			}
+			for a := f; a != nil; a = a.parent {
+				if a.fn == callee {
+					return // recursion
+				}
+			}
+			if made >= c02MaxFrames {
+				t.capped = true
+				return
+			}
+			made++
+			k := &c02Frame{fn: callee, parent: f, site: call, depth: f.depth + 1, kids: map[ssa.Instruction]*c02Frame{}, tree: t}
+			f.kids[in] = k
+			queue = append(queue, k)
+		})
+	}
+	return t
+}
+
+// c02DeferredLiteral: every start of literal l is a defer statement.
+func c02DeferredLiteral(l *ssa.Function) bool {
+	anchors := c02LiteralAnchors(l)
+	if len(anchors) == 0 {
+		return false
+	}
+	for _, a := range anchors {
+		if _, ok := a.(*ssa.Defer); !ok {
+			return false
+		}
+	}
+	return true
+}
+
+// each visits every instruction of the effective body (literals included).
+func (t *c02Tree) each(visit func(f *c02Frame, fn *ssa.Function, in ssa.Instruction)) {
+	for _, f := range t.frames {
+		c02AllInstrs(f.fn, func(fn *ssa.Function, in ssa.Instruction) { visit(f, fn, in) })
+	}
+}
+
+// under visits the frames of the subtree rooted at k.
+func (t *c02Tree) under(k *c02Frame) []*c02Frame {
+	var out []*c02Frame
+	for _, f := range t.frames {
+		for a := f; a != nil; a = a.parent {
+			if a == k {
+				out = append(out, f)
+				break
+			}
+		}
+	}
+	return out
+}
+
+// kidOf returns the frame a call instruction enters, if it calls a helper.
+func (f *c02Frame) kidOf(in ssa.Instruction) *c02Frame { return f.kids[in] }
+
+func (f *c02Frame) args() []ssa.Value { return f.site.Common().Args }
+
+// chain names the helpers between the root and f ("" for the root).
+func (f *c02Frame) chain() string {
+	if f.parent == nil {
+		return ""
+	}
+	if p := f.parent.chain(); p != "" {
+		return p + "/" + f.fn.Name()
+	}
+	return f.fn.Name()
+}
+
+func c02LCA(a, b *c02Frame) *c02Frame {
+	for a.depth > b.depth {
+		a = a.parent
+	}
+	for b.depth > a.depth {
+		b = b.parent
+	}
+	for a != b {
+		a, b = a.parent, b.parent
+	}
+	return a
+}
+
+// c02LiftTo returns the instruction of frame to (f itself or an ancestor)
+// during which instruction in of frame f executes.
+func c02LiftTo(f *c02Frame, in ssa.Instruction, to *c02Frame) ssa.Instruction {
+	for f != nil && f != to {
+		in, f = f.site, f.parent
+	}
+	if f == nil {
+		return nil
+	}
+	return in
+}
+
+// c02SpillParam: al is the local copy go/ssa makes of a struct parameter whose
+// fields are addressed; it is written once (the parameter) and only read after.
+func c02SpillParam(al *ssa.Alloc) *ssa.Parameter {
+	if al == nil || al.Referrers() == nil {
+		return nil
+	}
+	var prm *ssa.Parameter
+	var readOnly func(v ssa.Value, depth int) bool
+	readOnly = func(v ssa.Value, depth int) bool {
+		if v.Referrers() == nil || depth > 4 {
+			return false
+		}
+		for _, u := range *v.Referrers() {
+			switch u := u.(type) {
+			case *ssa.DebugRef:
+			case *ssa.UnOp:
+				if u.Op != token.MUL {
+					return false
+				}
+			case *ssa.FieldAddr:
+				if !readOnly(u, depth+1) {
+					return false
+				}
+			case *ssa.Store:
+				if depth > 0 || u.Addr != v {
+					return false
+				}
+				p, ok := u.Val.(*ssa.Parameter)
+				if !ok || prm != nil {
+					return false
+				}
+				prm = p
+			default:
+				return false
+			}
+		}
+		return true
+	}
+	if !readOnly(al, 0) {
+		return nil
+	}
+	return prm
+}
+
+// origin resolves v (a value of frame f) to where it comes from: through
+// c02Origin, a helper's parameter to the caller's argument, the result of a
+// helper call to the value the helper returns on success (when unique).
+func (t *c02Tree) origin(f *c02Frame, v ssa.Value) c02LV { return t.originX(f, v, true) }
+
+// originX: with desc=false the results of helper calls are not resolved.
+func (t *c02Tree) originX(f *c02Frame, v ssa.Value, desc bool) c02LV {
+	for i := 0; i < 32 && v != nil; i++ {
+		v = c02Origin(v)
+		switch tv := v.(type) {
+		case *ssa.Parameter:
+			if f.parent == nil || tv.Parent() != f.fn {
+				return c02LV{f, v}
+			}
+			idx, as := c02ParamIndex(tv), f.args()
+			if idx < 0 || idx >= len(as) {
+				return c02LV{f, v}
+			}
+			v, f = as[idx], f.parent
+		case *ssa.UnOp:
+			if tv.Op != token.MUL {
+				return c02LV{f, v}
+			}
+			al, ok := tv.X.(*ssa.Alloc)
+			if !ok {
+				return c02LV{f, v}
+			}
+			p := c02SpillParam(al)
+			if p == nil {
+				return c02LV{f, v}
+			}
+			v = p
+		case *ssa.Extract:
+			call, ok := tv.Tuple.(*ssa.Call)
+			if !ok {
+				return c02LV{f, v}
+			}
+			k := f.kids[call]
+			if k == nil || !desc {
+				return c02LV{f, v}
+			}
+			lv := t.retVal(k, tv.Index)
+			if lv == nil {
+				return c02LV{f, v}
+			}
+			return *lv
+		case *ssa.Call:
+			k := f.kids[tv]
+			if k == nil || !desc || tv.Call.Signature().Results().Len() != 1 {
+				return c02LV{f, v}
+			}
+			lv := t.retVal(k, 0)
+			if lv == nil {
+				return c02LV{f, v}
+			}
+			return *lv
+		default:
+			return c02LV{f, v}
+		}
+	}
+	return c02LV{f, v}
+}
+
+// retVal: the origin of result i of helper frame k on the returns that may
+// report success, when it is the same on all of them; nil otherwise.
+func (t *c02Tree) retVal(k *c02Frame, i int) *c02LV {
+	key := c02fi{k, i}
+	if lv, ok := t.retVals[key]; ok {
+		return lv
+	}
+	if t.busy[key] {
+		return nil
+	}
+	t.busy[key] = true
+	defer delete(t.busy, key)
+	var got *c02LV
+	same := true
+	errIdx := ErrResultIndex(k.fn)
+	consider := func(v ssa.Value) {
+		lv := t.origin(k, v)
+		if got == nil {
+			got = &lv
+		} else if *got != lv {
+			same = false
+		}
+	}
+	if errIdx < 0 || errIdx == i {
+		for _, ri := range Returns(k.fn) {
+			if i < len(ri.Results) {
+				consider(ri.Results[i])
+			}
+		}
+	} else {
+		for _, nr := range c02NilReturns(k.fn) {
+			if i < len(nr.Results) {
+				consider(nr.Results[i])
+			}
+		}
+	}
+	if !same {
+		got = nil
+	}
+	t.retVals[key] = got
+	return got
+}
+
+// pure renders an immutable value structurally (parameters of the root,
+// constants, fields of those), "" when the value is anything else. Two values
+// with the same non-empty rendering are equal at run time.
+func (t *c02Tree) pure(f *c02Frame, v ssa.Value, depth int) string {
+	if depth > 8 {
+		return ""
+	}
+	lv := t.origin(f, v)
+	f, v = lv.F, lv.V
+	switch tv := v.(type) {
+	case *ssa.Parameter:
+		return "param:" + FuncKey(tv.Parent()) + ":" + tv.Name()
+	case *ssa.Const:
+		if tv.Value == nil {
+			return ""
+		}
+		return "const:" + tv.Value.ExactString() + ":" + tv.Type().String()
+	case *ssa.Field:
+		if b := t.pure(f, tv.X, depth+1); b != "" {
+			return b + "." + fieldName(tv.X.Type(), tv.Field)
+		}
+	case *ssa.UnOp:
+		if tv.Op != token.MUL {
+			return ""
+		}
+		fa, ok := tv.X.(*ssa.FieldAddr)
+		if !ok {
+			return ""
+		}
+		var names []string
+		var base ssa.Value = fa
+		for {
+			a, ok := base.(*ssa.FieldAddr)
+			if !ok {
+				break
+			}
+			names = append([]string{fieldName(a.X.Type(), a.Field)}, names...)
+			base = a.X
+		}
+		al, ok := base.(*ssa.Alloc)
+		if !ok {
+			return ""
+		}
+		p := c02SpillParam(al)
+		if p == nil {
+			return ""
+		}
+		if b := t.pure(f, p, depth+1); b != "" {
+			return b + "." + strings.Join(names, ".")
+		}
+	}
+	return ""
+}
+
+// same: two values (of possibly different frames) denote the same run-time
+// value as far as the analysis can tell.
+func (t *c02Tree) same(fa *c02Frame, a ssa.Value, fb *c02Frame, b ssa.Value) bool {
+	if a == nil || b == nil {
+		return false
+	}
+	if fa == fb && sameOrigin(a, b) {
+		return true
+	}
+	la, lb := t.origin(fa, a), t.origin(fb, b)
+	if la == lb {
+		return true
+	}
+	if pa := t.pure(la.F, la.V, 0); pa != "" && pa == t.pure(lb.F, lb.V, 0) {
+		return true
+	}
+	// a phi one of whose incoming values is the other (as sameOrigin)
+	if ph, ok := la.V.(*ssa.Phi); ok {
+		for _, e := range ph.Edges {
+			if t.origin(la.F, e) == lb {
+				return true
+			}
+		}
+	}
+	if ph, ok := lb.V.(*ssa.Phi); ok {
+		for _, e := range ph.Edges {
+			if t.origin(lb.F, e) == la {
+				return true
+			}
+		}
+	}
+	return false
+}
+
+// limited: v is io.LimitReader(src, n) or &io.LimitedReader{R: src, N: n}.
+func (t *c02Tree) limited(f *c02Frame, v ssa.Value) (src c02LV, n int64, ok bool) {
+	lv := t.origin(f, v)
+	if c, isCall := c02AsCall(lv.V); isCall && c.IsStatic("io", "", "LimitReader") {
+		n, ok = t.constInt(lv.F, c.Args()[1])
+		return t.origin(lv.F, c.Args()[0]), n, ok
+	}
+	al, isAl := lv.V.(*ssa.Alloc)
+	if !isAl || !IsNamed(al.Type(), "io", "LimitedReader") || al.Referrers() == nil {
+		return c02LV{}, 0, false
+	}
+	okR, okN := false, false
+	for _, u := range *al.Referrers() {
+		fa, isFA := u.(*ssa.FieldAddr)
+		if !isFA || fa.Referrers() == nil {
+			continue
+		}
+		for _, uu := range *fa.Referrers() {
+			st, isSt := uu.(*ssa.Store)
+			if !isSt || st.Addr != ssa.Value(fa) {
+				continue
+			}
+			switch fieldName(fa.X.Type(), fa.Field) {
+			case "R":
+				if okR {
+					return c02LV{}, 0, false
+				}
+				src, okR = t.origin(lv.F, st.Val), true
+			case "N":
+				if okN {
+					return c02LV{}, 0, false
+				}
+				n, okN = t.constInt(lv.F, st.Val)
+			}
+		}
+	}
+	return src, n, okR && okN
+}
+
+func (t *c02Tree) constInt(f *c02Frame, v ssa.Value) (int64, bool) {
+	lv := t.origin(f, v)
+	if c, ok := lv.V.(*ssa.Const); ok && c.Value != nil && c.Value.Kind() == constant.Int {
+		return c.Int64(), true
+	}
+	return 0, false
+}
+
+// ---- returns that may report success
+
+type c02NilRet struct {
+	Ret     *ssa.Return
+	Val     ssa.Value       // the error operand on this edge (nil for functions without error result)
+	From    *ssa.BasicBlock // the block the edge comes from (the return's block when there is no phi)
+	Facts   []CondFact      // what is known on that edge
+	Results []ssa.Value     // all results, phis of the return's merge block resolved for this edge
+}
+
+var c02NilRetMemo = map[*ssa.Function][]c02NilRet{}
+
+// c02NilReturns lists, edge by edge, the returns of fn whose error result may
+// be nil; for a function without error result, all its returns.
+func c02NilReturns(fn *ssa.Function) []c02NilRet {
+	if out, ok := c02NilRetMemo[fn]; ok {
+		return out
+	}
+	var out []c02NilRet
+	idx := ErrResultIndex(fn)
+	for _, ri := range Returns(fn) {
+		if idx < 0 {
+			out = append(out, c02NilRet{Ret: ri.Ret, From: ri.Ret.Block(), Facts: FactsAt(ri.Ret.Block()), Results: ri.Results})
+			continue
+		}
+		for _, in := range c02Incoming(ri.Results[idx], ri.Ret.Block()) {
+			if !IsNilConst(in.Val) {
+				if isNonNilErrorExpr(in.Val) {
+					continue
+				}
+				nonNil := false
+				for _, f := range in.Facts {
+					if k, isNil := condSaysNil(f.Cond, f.Val, in.Val); k && !isNil {
+						nonNil = true
+					}
+				}
+				if nonNil {
+					continue
+				}
+				if cv := c02CellVal(in.Val); cv != nil && isNonNilErrorExpr(cv) {
+					continue
+				}
+			}
+			res := make([]ssa.Value, len(ri.Results))
+			for i, rv := range ri.Results {
+				res[i] = rv
+				if ph, ok := rv.(*ssa.Phi); ok {
+					for pi, pred := range ph.Block().Preds {
+						if pred == in.From {
+							res[i] = ph.Edges[pi]
+						}
+					}
+				}
+			}
+			res[idx] = in.Val
+			out = append(out, c02NilRet{Ret: ri.Ret, Val: in.Val, From: in.From, Facts: in.Facts, Results: res})
+		}
+	}
+	c02NilRetMemo[fn] = out
+	return out
+}
+
+// c02ErrCall: v is (after value-preserving moves) the error result of a call.
+func c02ErrCall(v ssa.Value) *ssa.Call {
+	o := originValue(v)
+	if cv := c02CellVal(o); cv != nil {
+		o = originValue(cv)
+	}
+	switch tv := o.(type) {
+	case *ssa.Call:
+		res := tv.Call.Signature().Results()
+		if res.Len() == 1 && isErrorType(res.At(0).Type()) {
+			return tv
+		}
+	case *ssa.Extract:
+		if call, ok := tv.Tuple.(*ssa.Call); ok {
+			res := call.Call.Signature().Results()
+			if tv.Index == res.Len()-1 && isErrorType(res.At(tv.Index).Type()) {
+				return call
+			}
+		}
+	}
+	return nil
+}
+
+// c02NilAsserted: the fact (cond==val) says that the error of a call is nil;
+// also through a variable that is otherwise only overwritten with non-nil errors.
+func c02NilAsserted(cond ssa.Value, val bool) *ssa.Call {
+	for {
+		if u, ok := cond.(*ssa.UnOp); ok && u.Op == token.NOT {
+			cond, val = u.X, !val
+			continue
+		}
+		break
+	}
+	bo, ok := cond.(*ssa.BinOp)
+	if !ok || bo.Op != token.EQL && bo.Op != token.NEQ || (bo.Op == token.EQL) != val {
+		return nil
+	}
+	var other ssa.Value
+	switch {
+	case IsNilConst(bo.Y):
+		other = bo.X
+	case IsNilConst(bo.X):
+		other = bo.Y
+	default:
+		return nil
+	}
+	if c := c02ErrCall(other); c != nil {
+		return c
+	}
+	if ph, ok := originValue(other).(*ssa.Phi); ok {
+		var found *ssa.Call
+		for _, e := range ph.Edges {
+			if isNonNilErrorExpr(e) {
+				continue
+			}
+			c := c02ErrCall(e)
+			if c == nil || found != nil && found != c {
+				return nil
+			}
+			found = c
+		}
+		return found
+	}
+	return nil
+}
+
+// ---- facts
+
+func c02StripNot(cond ssa.Value, val bool) (ssa.Value, bool) {
+	for {
+		if u, ok := cond.(*ssa.UnOp); ok && u.Op == token.NOT {
+			cond, val = u.X, !val
+			continue
+		}
+		return cond, val
+	}
+}
+
+// expand locates the facts of frame f and adds what the success of helper
+// calls (error known nil, boolean result known) implies.
+func (t *c02Tree) expand(f *c02Frame, local []CondFact) []c02EF {
+	var out []c02EF
+	for _, cf := range local {
+		out = append(out, c02EF{f, cf.Cond, cf.Val})
+		if call := c02NilAsserted(cf.Cond, cf.Val); call != nil {
+			if k := f.kids[call]; k != nil {
+				out = append(out, t.successFacts(k)...)
+			}
+		}
+		cond, val := c02StripNot(cf.Cond, cf.Val)
+		if call, ok := originValue(cond).(*ssa.Call); ok {
+			if k := f.kids[call]; k != nil {
+				out = append(out, t.boolFacts(k, val)...)
+			}
+		}
+	}
+	return out
+}
+
+func c02Intersect(sets [][]c02EF) []c02EF {
+	if len(sets) == 0 {
+		return nil
+	}
+	var out []c02EF
+	for _, ef := range sets[0] {
+		inAll := true
+		for _, s := range sets[1:] {
+			found := false
+			for _, e2 := range s {
+				if e2 == ef {
+					found = true
+					break
+				}
+			}
+			if !found {
+				inAll = false
+				break
+			}
+		}
+		if inAll {
+			out = append(out, ef)
+		}
+	}
+	return out
+}
+
+// successFacts: what holds on every return of helper frame k that may report success.
+func (t *c02Tree) successFacts(k *c02Frame) []c02EF {
+	if out, ok := t.retFacts[k]; ok {
+		return out
+	}
+	t.retFacts[k] = nil
+	var sets [][]c02EF
+	for _, nr := range c02NilReturns(k.fn) {
+		set := t.expand(k, nr.Facts)
+		if nr.Val != nil {
+			if call := c02ErrCall(nr.Val); call != nil {
+				if g := k.kids[call]; g != nil { // return helper(...): succeeds when the helper does
+					set = append(set, t.successFacts(g)...)
+				}
+			}
+		}
+		sets = append(sets, set)
+	}
+	out := c02Intersect(sets)
+	t.retFacts[k] = out
+	return out
+}
+
+// boolFacts: what holds on every return of helper frame k whose (single, boolean) result may be val.
+func (t *c02Tree) boolFacts(k *c02Frame, val bool) []c02EF {
+	res := k.fn.Signature.Results()
+	if res.Len() != 1 {
+		return nil
+	}
+	if b, ok := res.At(0).Type().Underlying().(*types.Basic); !ok || b.Kind() != types.Bool {
+		return nil
+	}
+	key := c02fbool{k, val}
+	if out, ok := t.retBool[key]; ok {
+		return out
+	}
+	t.retBool[key] = nil
+	var sets [][]c02EF
+	for _, ri := range Returns(k.fn) {
+		for _, in := range c02Incoming(ri.Results[0], ri.Ret.Block()) {
+			if c, ok := in.Val.(*ssa.Const); ok && c.Value != nil && c.Value.Kind() == constant.Bool {
+				if constant.BoolVal(c.Value) != val {
+					continue
+				}
+				sets = append(sets, t.expand(k, in.Facts))
+				continue
+			}
+			sets = append(sets, t.expand(k, append(append([]CondFact(nil), in.Facts...), CondFact{Cond: in.Val, Val: val})))
+		}
+	}
+	out := c02Intersect(sets)
+	t.retBool[key] = out
+	return out
+}
+
+// facts: the branch facts known at block b of frame f: its own dominating
+// conditions, what held where an enclosing literal was created, what held at
+// the call site of the frame, and what successful helper calls imply.
+func (t *c02Tree) facts(f *c02Frame, b *ssa.BasicBlock) []c02EF {
+	key := c02fb{f, b}
+	if out, ok := t.factMemo[key]; ok {
+		return out
+	}
+	t.factMemo[key] = nil
+	out := t.expand(f, FactsAt(b))
+	if lit := b.Parent(); lit != f.fn && lit.Parent() != nil {
+		var sets [][]c02EF
+		for _, pb := range lit.Parent().Blocks {
+			for _, in := range pb.Instrs {
+				if mc, ok := in.(*ssa.MakeClosure); ok && mc.Fn == ssa.Value(lit) {
+					sets = append(sets, t.facts(f, pb))
+				}
+			}
+		}
+		out = append(out, c02Intersect(sets)...)
+	} else if f.parent != nil {
+		out = append(out, t.facts(f.parent, f.site.Block())...)
+	}
+	t.factMemo[key] = out
+	return out
+}
+
+// c02FactE looks for a fact whose condition (negations stripped, also through
+// originValue) satisfies pred.
+func c02FactE(facts []c02EF, pred func(f *c02Frame, cond ssa.Value) bool) (known, val bool) {
+	for _, ef := range facts {
+		cond, v := c02StripNot(ef.Cond, ef.Val)
+		if pred(ef.F, cond) || pred(ef.F, originValue(cond)) {
+			return true, v
+		}
+	}
+	return false, false
+}
+
+// c02BoolCallFactE: a call satisfying pred is known to have returned val.
+func c02BoolCallFactE(facts []c02EF, pred func(f *c02Frame, c CallSite) bool) (known, val bool, at c02Loc) {
+	for _, ef := range facts {
+		cond, v := c02StripNot(ef.Cond, ef.Val)
+		if c, ok := originValue(cond).(*ssa.Call); ok {
+			if pred(ef.F, CallSite{c.Parent(), c}) {
+				return true, v, c02Loc{ef.F, c}
+			}
+		}
+	}
+	return false, false, c02Loc{}
+}
+
+// infeasible: a fact contradicts a constant (a helper's flag parameter bound to
+// a constant by the caller).
+func (t *c02Tree) infeasible(facts []c02EF) bool {
+	for _, ef := range facts {
+		cond, val := c02StripNot(ef.Cond, ef.Val)
+		if c, ok := t.origin(ef.F, cond).V.(*ssa.Const); ok && c.Value != nil && c.Value.Kind() == constant.Bool {
+			if constant.BoolVal(c.Value) != val {
+				return true
+			}
+		}
+	}
+	return false
+}
+
+// nilKnown: what the facts say about v (a value of frame fv) being nil.
+func (t *c02Tree) nilKnown(facts []c02EF, fv *c02Frame, v ssa.Value) (known, isNil bool) {
+	for _, ef := range facts {
+		cond, val := c02StripNot(ef.Cond, ef.Val)
+		bo, ok := cond.(*ssa.BinOp)
+		if !ok || bo.Op != token.EQL && bo.Op != token.NEQ {
+			continue
+		}
+		var other ssa.Value
+		switch {
+		case IsNilConst(bo.Y):
+			other = bo.X
+		case IsNilConst(bo.X):
+			other = bo.Y
+		default:
+			continue
+		}
+		tv := t.origin(fv, v)
+		if cv := c02CellVal(other); cv != nil && t.origin(ef.F, cv) == tv || t.origin(ef.F, other) == tv {
+			return true, (bo.Op == token.EQL) == val
+		}
+	}
+	return false, false
+}
+
+// ---- values split by the edge they arrive on
+
+type c02EIn struct {
+	F     *c02Frame
+	Val   ssa.Value
+	From  *ssa.BasicBlock
+	Facts []c02EF
+}
+
+// incoming splits v (a value of frame f used in block at) into the values it
+// may have, one per phi edge, per return of the helper that produced it, with
+// the facts known on each way.
+func (t *c02Tree) incoming(f *c02Frame, v ssa.Value, at *ssa.BasicBlock, extra []c02EF, depth int) []c02EIn {
+	var out []c02EIn
+	for _, in := range c02Incoming(v, at) {
+		facts := append(append([]c02EF(nil), extra...), t.expand(f, in.Facts)...)
+		if f.parent != nil {
+			facts = append(facts, t.facts(f.parent, f.site.Block())...)
+		}
+		o := originValue(in.Val)
+		if depth < 6 {
+			if prm, ok := c02Origin(o).(*ssa.Parameter); ok && f.parent != nil && prm.Parent() == f.fn {
+				if idx, as := c02ParamIndex(prm), f.args(); idx >= 0 && idx < len(as) {
+					out = append(out, t.incoming(f.parent, as[idx], f.site.Block(), facts, depth+1)...)
+					continue
+				}
+			}
+			var call *ssa.Call
+			ri := 0
+			switch tv := o.(type) {
+			case *ssa.Call:
+				if tv.Call.Signature().Results().Len() == 1 {
+					call = tv
+				}
+			case *ssa.Extract:
+				call, _ = tv.Tuple.(*ssa.Call)
+				ri = tv.Index
+			}
+			if call != nil {
+				if k := f.kids[call]; k != nil {
+					// where the caller knows the helper's error to be nil, only its success returns matter
+					succeeded := false
+					if ei := ErrResultIndex(k.fn); ei >= 0 && ei != ri {
+						for _, ef := range facts {
+							if ef.F == f && c02NilAsserted(ef.Cond, ef.Val) == call {
+								succeeded = true
+							}
+						}
+					}
+					n := 0
+					if succeeded {
+						for _, nr := range c02NilReturns(k.fn) {
+							if ri < len(nr.Results) {
+								n++
+								for _, sub := range t.incoming(k, nr.Results[ri], nr.From, facts, depth+1) {
+									sub.Facts = append(sub.Facts, t.expand(k, nr.Facts)...)
+									out = append(out, sub)
+								}
+							}
+						}
+					} else {
+						for _, r := range Returns(k.fn) {
+							if ri < len(r.Results) {
+								n++
+								out = append(out, t.incoming(k, r.Results[ri], r.Ret.Block(), facts, depth+1)...)
+							}
+						}
+					}
+					if n > 0 {
+						continue
+					}
+				}
+			}
+			if ph, ok := o.(*ssa.Phi); ok && o != in.Val {
+				out = append(out, t.incoming(f, ph, ph.Block(), facts, depth+1)...)
+				continue
+			}
+		}
+		out = append(out, c02EIn{f, in.Val, in.From, facts})
+	}
+	return out
+}
+
+// ---- order and dominance across frames
+
+// c02Prec: a executes before s on every path to s; s may sit in a literal
+// directly nested in a's function (then before every start of the literal).
+func c02Prec(a, s ssa.Instruction) bool {
+	if a.Parent() == s.Parent() {
+		return Precedes(a, s)
+	}
+	l := s.Parent()
+	if l.Parent() != a.Parent() {
+		return false
+	}
+	anchors := c02LiteralAnchors(l)
+	if len(anchors) == 0 {
+		return false
+	}
+	for _, k := range anchors {
+		if !Precedes(a, k) {
+			return false
+		}
+	}
+	return true
+}
+
+// implies: whenever helper fn reports success, call inner (of fn) has succeeded.
+func (x *c02Ctx) implies(fn *ssa.Function, inner *ssa.Call) (bool, string) {
+	k := c02fc{fn, inner}
+	if v, ok := x.impliesMemo[k]; ok {
+		return v.ok, v.why
+	}
+	ok, why := true, ""
+	ev, hasErr, _ := ErrValue(inner)
+	for _, nr := range c02NilReturns(fn) {
+		if hasErr && nr.Val != nil && sameOrigin(nr.Val, ev) {
+			continue // returns the call's own error
+		}
+		if o, w := c02SuccDom(inner, c02LastInstr(nr.From)); !o {
+			ok, why = false, fmt.Sprintf("%s may report success (return at line %d) where %s", fn.Name(), x.p.Fset.Position(nr.Ret.Pos()).Line, w)
+			break
+		}
+	}
+	x.impliesMemo[k] = c02verdict{ok, why}
+	return ok, why
+}
+
+// succDom: call pc of frame pf has succeeded on every path to instruction q of frame qf.
+func (t *c02Tree) succDom(pf *c02Frame, pc *ssa.Call, qf *c02Frame, q ssa.Instruction) (bool, string) {
+	l := c02LCA(pf, qf)
+	qa := c02LiftTo(qf, q, l)
+	cur, f := pc, pf
+	for f != l {
+		if ok, why := t.x.implies(f.fn, cur); !ok {
+			return false, why
+		}
+		sc, isCall := f.site.(*ssa.Call)
+		if !isCall {
+			return false, "the call runs in a goroutine of its own"
+		}
+		cur, f = sc, f.parent
+	}
+	if ssa.Instruction(cur) == qa {
+		return false, "the site is inside the call"
+	}
+	return c02SuccDom(cur, qa)
+}
+
+// prec: instruction a of frame af executes before instruction b of frame bf on every path to b.
+func (t *c02Tree) prec(af *c02Frame, a ssa.Instruction, bf *c02Frame, b ssa.Instruction) bool {
+	l := c02LCA(af, bf)
+	ba := c02LiftTo(bf, b, l)
+	cur, f := a, af
+	for f != l {
+		if _, isCall := f.site.(*ssa.Call); !isCall {
+			return false
+		}
+		for _, ri := range Returns(f.fn) {
+			if !c02Prec(cur, ri.Ret) {
+				return false
+			}
+		}
+		cur, f = f.site, f.parent
+	}
+	if cur == ba {
+		return false
+	}
+	return c02Prec(cur, ba)
+}
+
+// mayFollow: instruction b of frame bf may execute after instruction a of frame af (over-approximation).
+func (t *c02Tree) mayFollow(af *c02Frame, a ssa.Instruction, bf *c02Frame, b ssa.Instruction) bool {
+	l := c02LCA(af, bf)
+	aa, ba := c02LiftTo(af, a, l), c02LiftTo(bf, b, l)
+	if aa == ba {
+		return true
+	}
+	if aa.Parent() == ba.Parent() {
+		return c02Reaches(aa, ba)
+	}
+	return true
+}
+
+// nilReturns lists the returns of the effective body of frame f that may
+// report success: a return of a helper's own error is replaced by the helper's returns.
+type c02ENil struct {
+	F    *c02Frame
+	Ret  *ssa.Return
+	Val  ssa.Value
+	From *ssa.BasicBlock
+}
+
+func (t *c02Tree) nilReturns(f *c02Frame, depth int) []c02ENil {
+	var out []c02ENil
+	for _, nr := range c02NilReturns(f.fn) {
+		if nr.Val != nil && depth < c02MaxDepth {
+			if call := c02ErrCall(nr.Val); call != nil {
+				if k := f.kids[call]; k != nil && ErrResultIndex(k.fn) >= 0 {
+					out = append(out, t.nilReturns(k, depth+1)...)
+					continue
+				}
+			}
+		}
+		out = append(out, c02ENil{f, nr.Ret, nr.Val, nr.From})
+	}
+	return out
+}
+
+// ---------------------------------------------------------------------------
 // R-core
+
+type c02Report func(ok bool, construct, site, okDetail, badDetail string)
 
 func c02RuleCore(x *c02Ctx) {
 	p, r := x.p, x.r
 	const rule = "R-core"
-	fn := p.Func("pkg/blobserver", "", "receive")
+	entry := p.Func("pkg/blobserver", "", "Receive")
 	noHash := p.Func("pkg/blobserver", "", "ReceiveNoHash")
-	p.Func("pkg/blobserver", "", "Receive")
-	key := FuncKey(fn)
-	dst := c02ParamOfType(fn, func(t types.Type) bool { return IsNamed(t, c02BSPath, "BlobReceiver") })
-	br := c02ParamOfType(fn, c02IsBlobRef)
-	src := c02ParamOfType(fn, func(t types.Type) bool { return IsNamed(t, "io", "Reader") })
-	chk := c02ParamOfType(fn, func(t types.Type) bool {
-		b, ok := t.(*types.Basic)
-		return ok && b.Kind() == types.Bool
-	})
-	if dst == nil || br == nil || src == nil || chk == nil {
-		brokenf("anchor unresolved: parameters (BlobReceiver, blob.Ref, io.Reader, bool) of blobserver.receive")
-	}
-	chkIdx := -1
-	for i, prm := range fn.Params {
-		if prm == chk {
-			chkIdx = i
-		}
-	}
 
 	// table agreement of the cap
 	cmax := c02ConstInt(p, "pkg/constants", "MaxBlobSize")
 	r.Check(cmax == x.maxBlob && cmax == 16<<20, rule, "pkg/constants.MaxBlobSize#value", "", "constants.MaxBlobSize == blobserver.MaxBlobSize == 16 MiB (the cap the property names)",
 		fmt.Sprintf("constants.MaxBlobSize=%d, blobserver.MaxBlobSize=%d, property names 16 MiB", cmax, x.maxBlob))
 
-	// who may call receive, and with which checkHash
-	if uses := p.FuncValueUses(fn); len(uses) > 0 {
-		r.Undecided(rule, key+"#func-value", p.Pos(uses[0].Pos()), "blobserver.receive is used as a function value; its callers can no longer be enumerated")
+	report := func(ok bool, construct, site, okDetail, badDetail string) {
+		r.Check(ok, rule, construct, site, okDetail, badDetail)
 	}
-	for _, c := range p.StaticCallers(fn) {
-		construct := FuncKey(c.Fn) + "#calls-receive"
-		arg := c.Args()[chkIdx]
-		cst, isConst := originValue(arg).(*ssa.Const)
-		switch {
-		case isConst && cst.Value != nil && constant.BoolVal(cst.Value):
-			r.OKTable(rule, construct, p.Pos(c.Pos()), "calls receive with checkHash=true")
-		case c.Fn == noHash:
-			r.OKTable(rule, construct, p.Pos(c.Pos()), "the one unverified entry point; its callers are classified by R-entry")
-		default:
-			r.Violation(rule, construct, p.Pos(c.Pos()), "calls blobserver.receive without a constant checkHash=true and is not ReceiveNoHash: a new unverified ingest entry point whose callers R-entry does not enumerate")
+	x.core = map[*ssa.Function]bool{entry: true, noHash: true}
+	x.flagBad = map[string]string{}
+	x.coreEntry(entry, true, report, true)
+	x.coreEntry(noHash, false, report, true)
+
+	// who may call the helpers the two entry points share
+	var helpers []*ssa.Function
+	for h := range x.core {
+		if h != entry && h != noHash {
+			helpers = append(helpers, h)
+		}
+	}
+	sort.Slice(helpers, func(i, j int) bool { return FuncKey(helpers[i]) < FuncKey(helpers[j]) })
+	for _, h := range helpers {
+		if uses := p.FuncValueUses(h); len(uses) > 0 {
+			r.Undecided(rule, FuncKey(h)+"#func-value", p.Pos(uses[0].Pos()), "a helper of the verified core is used as a function value; its callers can no longer be enumerated")
+		}
+		for _, c := range p.StaticCallers(h) {
+			top := TopFunc(c.Fn)
+			construct := FuncKey(c.Fn) + "#calls-" + h.Name()
+			site := p.Pos(c.Pos())
+			switch {
+			case x.flagBad[construct] != "":
+				r.Violation(rule, construct, site, x.flagBad[construct])
+			case top == noHash:
+				r.OKTable(rule, construct, site, "the one unverified entry point; its callers are classified by R-entry")
+			case x.core[top]:
+				r.OKTable(rule, construct, site, "part of the verified core: every feasible path hands the backend the hash-checking reader (see #backend-call:reader)")
+			default:
+				// a further entry point: acceptable only if it is a verified one
+				all := true
+				n := 0
+				x.coreEntry(top, true, func(ok bool, _, _, _, _ string) {
+					n++
+					if !ok {
+						all = false
+					}
+				}, false)
+				r.Check(all && n > 0, rule, construct, site, "a further entry point into the core that satisfies every obligation of the verified entry point",
+					"calls a helper of the verified core but does not hand the backend the hash-checking, size-limited reader on every path: a new unverified ingest entry point whose callers R-entry does not enumerate")
+			}
 		}
 	}
 
-	// the one backend call
-	var rb *ssa.Call
-	nrb := 0
-	for _, c := range CallsIn(fn, true) {
-		if x.isReceiveBlobCall(c) {
-			nrb++
-			rb = c.Value()
-		}
+	var ts []*types.Named
+	for tn := range x.hashReaders {
+		ts = append(ts, tn)
 	}
-	if nrb != 1 || rb == nil || rb.Parent() != fn {
-		r.Violation(rule, key+"#backend-call", p.Pos(fn.Pos()), fmt.Sprintf("expected exactly one direct dst.ReceiveBlob call in blobserver.receive, found %d", nrb))
-		r.Floor(rule, 11)
+	sort.Slice(ts, func(i, j int) bool { return ts[i].Obj().Name() < ts[j].Obj().Name() })
+	for _, tn := range ts {
+		c02RuleCoreRead(x, tn)
+	}
+	r.Floor(rule, 11)
+}
+
+// coreEntry checks one entry point E of the core: in E's effective body there
+// is exactly one backend call; it receives on E's dst under E's ref; the reader
+// handed over is, on every feasible path, the hash-checking reader over
+// LimitReader(src, MaxBlobSize) (verified) or at least that LimitReader (not
+// verified); notification and success returns follow its success.
+func (x *c02Ctx) coreEntry(E *ssa.Function, verified bool, report c02Report, record bool) {
+	p := x.p
+	dst := c02ParamOfType(E, func(t types.Type) bool { return IsNamed(t, c02BSPath, "BlobReceiver") })
+	br := c02ParamOfType(E, c02IsBlobRef)
+	src := c02ParamOfType(E, func(t types.Type) bool { return IsNamed(t, "io", "Reader") })
+	ekey := FuncKey(E)
+	if dst == nil || br == nil || src == nil {
+		if record {
+			brokenf("anchor unresolved: parameters (BlobReceiver, blob.Ref, io.Reader) of %s", ekey)
+		}
+		report(false, ekey+"#backend-call", p.Pos(E.Pos()), "", "cannot identify the (BlobReceiver, blob.Ref, io.Reader) parameters")
 		return
 	}
-	rbc := CallSite{fn, rb}
-	site := p.Pos(rb.Pos())
-	args := rbc.Args() // recv, ctx, br, src
-	r.Check(c02Origin(args[0]) == ssa.Value(dst) && c02Origin(args[2]) == ssa.Value(br), rule, key+"#backend-call:same-dst-and-ref", site,
-		"the backend call receives on the dst and under the ref that were passed in", "dst.ReceiveBlob is not called on receive's own dst with receive's own ref")
-
-	isLimited := func(v ssa.Value) bool {
-		c, ok := c02AsCall(c02Origin(v))
-		if !ok || !c.IsStatic("io", "", "LimitReader") {
-			return false
-		}
-		n, ok := ConstInt(c.Args()[1])
-		return ok && n == x.maxBlob && c02Origin(c.Args()[0]) == ssa.Value(src)
+	t := x.tree(E)
+	root := t.root
+	sfx := ""
+	if !verified {
+		sfx = ":nohash"
 	}
-	isChkFact := func(cond ssa.Value) bool { return originValue(cond) == ssa.Value(chk) }
+	var rbF *c02Frame
+	var rb *ssa.Call
+	nrb := 0
+	t.each(func(f *c02Frame, fn *ssa.Function, in ssa.Instruction) {
+		if c, ok := in.(*ssa.Call); ok && x.isReceiveBlobCall(CallSite{fn, c}) {
+			nrb++
+			rbF, rb = f, c
+		}
+	})
+	if nrb != 1 {
+		report(false, ekey+"#backend-call"+sfx, p.Pos(E.Pos()), "", fmt.Sprintf("expected exactly one dst.ReceiveBlob call in the effective body of %s, found %d", ekey, nrb))
+		return
+	}
+	if record {
+		for f := rbF; f != nil; f = f.parent {
+			x.core[f.fn] = true
+		}
+	}
+	key := FuncKey(rb.Parent())
+	site := p.Pos(rb.Pos())
+	args := CallSite{rb.Parent(), rb}.Args() // recv, ctx, br, src
+	report(t.origin(rbF, args[0]) == (c02LV{root, dst}) && t.origin(rbF, args[2]) == (c02LV{root, br}), key+"#backend-call:same-dst-and-ref"+sfx, site,
+		"the backend call receives on the dst and under the ref that were passed in", "dst.ReceiveBlob is not called on the entry point's own dst with its own ref")
+
+	isLimited := func(f *c02Frame, v ssa.Value) bool {
+		from, n, ok := t.limited(f, v)
+		return ok && n == x.maxBlob && from == (c02LV{root, src})
+	}
 	bad := ""
 	nin := 0
-	for _, in := range c02Incoming(args[3], rb.Block()) {
+	for _, in := range t.incoming(rbF, args[3], rb.Block(), nil, 0) {
+		if t.infeasible(in.Facts) {
+			continue
+		}
 		nin++
-		known, val := c02Fact(in.Facts, isChkFact)
-		if known && !val {
-			if !isLimited(in.Val) {
-				bad = "on the checkHash=false path the reader is not io.LimitReader(src, MaxBlobSize)"
+		lv := t.origin(in.F, in.Val)
+		if isLimited(lv.F, lv.V) {
+			if !verified {
+				continue
+			}
+			bad = "on a path of the verified entry point the reader handed to the backend is the bare io.LimitReader, not the hash-checking reader"
+			// which flag selected this path?
+			for _, ef := range in.Facts {
+				cond, _ := c02StripNot(ef.Cond, ef.Val)
+				prm, ok := originValue(cond).(*ssa.Parameter)
+				if !ok || ef.F.parent == nil || prm.Parent() != ef.F.fn {
+					continue
+				}
+				if _, isConst := t.origin(ef.F, prm).V.(*ssa.Const); !isConst && record {
+					x.flagBad[FuncKey(ef.F.site.Parent())+"#calls-"+ef.F.fn.Name()] = "passes a non-constant value for the parameter that selects whether the digest is checked: the verified entry point may skip the hash check"
+				}
 			}
 			continue
 		}
 		// must be the hash-checking reader
-		al, ok := c02Origin(in.Val).(*ssa.Alloc)
-		if !ok || !IsNamed(al.Type(), c02BSPath, "checkHashReader") {
-			bad = "where checkHash is not known false the reader handed to the backend is not a *checkHashReader"
+		al, ok := lv.V.(*ssa.Alloc)
+		var tn *types.Named
+		if ok {
+			tn = NamedOf(al.Type())
+		}
+		if tn == nil {
+			if verified {
+				bad = "on a path of the verified entry point the reader handed to the backend is not the hash-checking reader"
+			} else {
+				bad = "the reader handed to the backend is neither io.LimitReader(src, MaxBlobSize) nor the hash-checking reader"
+			}
 			continue
 		}
-		fields := map[string]*ssa.Store{}
+		af := lv.F
+		// fields by type: the reader, the ref, the hash
+		var fSrc, fRef, fHash *ssa.Store
 		if al.Referrers() != nil {
 			for _, u := range *al.Referrers() {
 				fa, ok := u.(*ssa.FieldAddr)
@@ -605,164 +1842,190 @@ func c02RuleCore(x *c02Ctx) {
 					continue
 				}
 				for _, uu := range *fa.Referrers() {
-					if st, ok := uu.(*ssa.Store); ok && st.Addr == ssa.Value(fa) {
-						fields[fieldName(fa.X.Type(), fa.Field)] = st
+					st, ok := uu.(*ssa.Store)
+					if !ok || st.Addr != ssa.Value(fa) {
+						continue
+					}
+					switch {
+					case IsNamed(st.Val.Type(), "io", "Reader"):
+						fSrc = st
+					case c02IsBlobRef(st.Val.Type()):
+						fRef = st
+					case IsNamed(st.Val.Type(), "hash", "Hash"):
+						fHash = st
 					}
 				}
 			}
 		}
-		// by type: the reader field, the ref field, the hash field
-		var fSrc, fRef, fHash *ssa.Store
-		for _, st := range fields {
-			switch {
-			case IsNamed(st.Val.Type(), "io", "Reader"):
-				fSrc = st
-			case c02IsBlobRef(st.Val.Type()):
-				fRef = st
-			case IsNamed(st.Val.Type(), "hash", "Hash"):
-				fHash = st
-			}
-		}
 		switch {
-		case fSrc == nil || !isLimited(fSrc.Val):
-			bad = "checkHashReader does not wrap io.LimitReader(src, MaxBlobSize): an oversize body would not be cut (and so mismatched) before the digest comparison"
-		case fRef == nil || c02Origin(fRef.Val) != ssa.Value(br):
-			bad = "checkHashReader compares against a ref other than the one the backend stores under"
+		case fSrc == nil || !isLimited(af, fSrc.Val):
+			bad = "the hash-checking reader does not wrap io.LimitReader(src, MaxBlobSize): an oversize body would not be cut (and so mismatched) before the digest comparison"
+		case fRef == nil || t.origin(af, fRef.Val) != (c02LV{root, br}):
+			bad = "the hash-checking reader compares against a ref other than the one the backend stores under"
 		case fHash == nil:
-			bad = "checkHashReader has no hash"
+			bad = "the hash-checking reader has no hash"
 		default:
-			hc, ok := c02AsCall(c02Origin(fHash.Val))
-			if !ok || !hc.IsStatic(c02BlobPath, "Ref", "Hash") || c02Origin(hc.Args()[0]) != ssa.Value(br) {
-				bad = "checkHashReader's hash is not br.Hash() of the same ref"
-			} else if k, isNil := NilFact(fHash.Block(), hc.Value()); !(k && !isNil) {
+			hv := t.origin(af, fHash.Val)
+			hc, ok := c02AsCall(hv.V)
+			if !ok || !hc.IsStatic(c02BlobPath, "Ref", "Hash") || t.origin(hv.F, hc.Args()[0]) != (c02LV{root, br}) {
+				bad = "the hash-checking reader's hash is not br.Hash() of the same ref"
+			} else if k, isNil := t.nilKnown(append(t.facts(af, fHash.Block()), in.Facts...), hv.F, hv.V); !(k && !isNil) {
 				bad = "a nil br.Hash() (unsupported hash name) is not rejected before the backend is called"
+			} else if record {
+				x.hashReaders[tn] = true
 			}
 		}
 	}
-	r.Check(bad == "" && nin > 0, rule, key+"#backend-call:reader", site,
-		"reader handed to the backend: checkHashReader{br.Hash()!=nil, br, LimitReader(src, MaxBlobSize)} unless checkHash is known false, then LimitReader(src, MaxBlobSize)", bad)
+	okDetail := "reader handed to the backend on every feasible path: hash-checking reader{br.Hash()!=nil, br, LimitReader(src, MaxBlobSize)}"
+	if !verified {
+		okDetail = "reader handed to the backend by the unverified entry point: io.LimitReader(src, MaxBlobSize) (or the hash-checking reader)"
+	}
+	if nin == 0 && bad == "" {
+		bad = "no feasible value of the reader handed to the backend found"
+	}
+	report(bad == "", key+"#backend-call:reader"+sfx, site, okDetail, bad)
 
 	// hub notification only after success, with the backend's result
+	hub := p.Iface("pkg/blobserver", "BlobHub")
 	nn := 0
-	for _, c := range CallsIn(fn, true) {
-		if c.MethodName() != "NotifyBlobReceived" {
-			continue
+	t.each(func(f *c02Frame, fn *ssa.Function, in ssa.Instruction) {
+		ci, ok := in.(ssa.CallInstruction)
+		if !ok {
+			return
+		}
+		c := CallSite{fn, ci}
+		if !c.IsMethod("NotifyBlobReceived", hub) {
+			return
 		}
 		nn++
-		ok, why := c02SuccDom(rb, c.Instr)
+		ok, why := t.succDom(rbF, rb, f, in)
 		as := c.Args()
 		okArg := false
-		if ex, isEx := c02Origin(as[len(as)-1]).(*ssa.Extract); isEx && ex.Tuple == ssa.Value(rb) && ex.Index == 0 {
-			okArg = true
+		if lv := t.origin(f, as[len(as)-1]); lv.F == rbF {
+			if ex, isEx := lv.V.(*ssa.Extract); isEx && ex.Tuple == ssa.Value(rb) && ex.Index == 0 {
+				okArg = true
+			}
 		}
-		r.Check(ok && okArg, rule, key+"#notify", p.Pos(c.Pos()), "hub notified only on the err==nil edge of dst.ReceiveBlob, with the SizedRef it returned",
+		report(ok && okArg, FuncKey(TopFunc(fn))+"#notify"+sfx, p.Pos(c.Pos()), "hub notified only on the err==nil edge of dst.ReceiveBlob, with the SizedRef it returned",
 			"NotifyBlobReceived is reachable without success of dst.ReceiveBlob ("+why+") or announces something other than its result: observers would hear of a rejected blob")
-	}
+	})
 	if nn == 0 {
-		r.Violation(rule, key+"#notify", site, "receive no longer notifies the blob hub after a successful ReceiveBlob")
+		report(false, key+"#notify"+sfx, site, "", "the entry point no longer notifies the blob hub after a successful ReceiveBlob")
 	}
 	// success returns
-	for _, nr := range MaybeNilErrorReturns(fn) {
-		ev, _, _ := ErrValue(rb)
-		ok := sameOrigin(nr.Val, ev)
+	ev, _, _ := ErrValue(rb)
+	for _, nr := range t.nilReturns(root, 0) {
+		ok := nr.F == rbF && nr.Val != nil && sameOrigin(nr.Val, ev)
 		why := ""
 		if !ok {
-			ok, why = SuccessDominates(rb, c02LastInstr(nr.From))
+			ok, why = t.succDom(rbF, rb, nr.F, c02LastInstr(nr.From))
 		}
-		r.Check(ok, rule, key+"#success-return", p.Pos(nr.Ret.Pos()), "nil-error return only after dst.ReceiveBlob succeeded",
-			"receive may return a nil error without dst.ReceiveBlob having succeeded: "+why)
+		report(ok, FuncKey(nr.F.fn)+"#success-return"+sfx, p.Pos(nr.Ret.Pos()), "nil-error return only after dst.ReceiveBlob succeeded",
+			"the entry point may return a nil error without dst.ReceiveBlob having succeeded: "+why)
 	}
-
-	c02RuleCoreRead(x)
-	r.Floor(rule, 11)
 }
 
-func c02RuleCoreRead(x *c02Ctx) {
+// c02RuleCoreRead checks the Read method of the hash-checking reader type.
+func c02RuleCoreRead(x *c02Ctx, tn *types.Named) {
 	p, r := x.p, x.r
 	const rule = "R-core"
-	fn := p.Func("pkg/blobserver", "checkHashReader", "Read")
+	fn, _ := p.MethodOf(tn, "Read")
+	if fn == nil || fn.Blocks == nil || fn.Synthetic != "" {
+		r.Violation(rule, typeKey(tn)+"#Read", "", "the hash-checking reader type has no declared Read method")
+		return
+	}
 	key := FuncKey(fn)
 	if len(fn.Params) != 2 {
-		brokenf("anchor unresolved: checkHashReader.Read(p []byte)")
+		brokenf("anchor unresolved: %s(p []byte)", key)
 	}
+	t := x.tree(fn)
+	root := t.root
 	self, buf := fn.Params[0], fn.Params[1]
-	fieldOfSelf := func(v ssa.Value) (string, bool) {
-		ld, ok := originValue(v).(*ssa.UnOp)
+	fieldOfSelf := func(f *c02Frame, v ssa.Value) (string, bool) {
+		lv := t.origin(f, v)
+		ld, ok := lv.V.(*ssa.UnOp)
 		if !ok || ld.Op != token.MUL {
 			return "", false
 		}
 		fa, ok := ld.X.(*ssa.FieldAddr)
-		if !ok || originValue(fa.X) != ssa.Value(self) {
+		if !ok || t.origin(lv.F, fa.X) != (c02LV{root, self}) {
 			return "", false
 		}
 		return fieldName(fa.X.Type(), fa.Field), true
 	}
 	var rd, hw, hm *ssa.Call
+	var rdF, hwF, hmF *c02Frame
 	var hashField string
-	for _, c := range CallsIn(fn, false) {
-		v := c.Value()
-		if v == nil {
-			continue
+	t.each(func(f *c02Frame, pf *ssa.Function, in ssa.Instruction) {
+		v, ok := in.(*ssa.Call)
+		if !ok {
+			return
 		}
+		c := CallSite{pf, v}
 		switch {
 		case c.Common().IsInvoke() && c.MethodName() == "Read":
-			if _, ok := fieldOfSelf(c.Args()[0]); ok && originValue(c.Args()[1]) == ssa.Value(buf) {
-				rd = v
+			if _, ok := fieldOfSelf(f, c.Args()[0]); ok && t.origin(f, c.Args()[1]) == (c02LV{root, buf}) {
+				rd, rdF = v, f
 			}
 		case c.Common().IsInvoke() && c.MethodName() == "Write":
-			if f, ok := fieldOfSelf(c.Args()[0]); ok {
-				hw, hashField = v, f
+			if fld, ok := fieldOfSelf(f, c.Args()[0]); ok {
+				hw, hwF, hashField = v, f, fld
 			}
 		case c.IsStatic(c02BlobPath, "Ref", "HashMatches"):
-			hm = v
+			hm, hmF = v, f
 		}
-	}
+	})
 	if rd == nil || hw == nil || hm == nil {
-		r.Violation(rule, key+"#shape", p.Pos(fn.Pos()), "checkHashReader.Read no longer reads c.src into p, feeds a hash field and calls br.HashMatches")
+		r.Violation(rule, key+"#shape", p.Pos(fn.Pos()), "the Read method of the hash-checking reader no longer reads its source into p, feeds a hash field and calls HashMatches on its ref")
 		return
 	}
-	// the hash is fed exactly the bytes just read, before the comparison; the comparison is c.br against that hash
+	// the hash is fed exactly the bytes just read, before the comparison; the comparison is the receiver's ref against that hash
 	okFeed := false
-	if sl, ok := originValue(CallSite{fn, hw}.Args()[1]).(*ssa.Slice); ok && originValue(sl.X) == ssa.Value(buf) && sl.Low == nil && sl.High != nil {
-		if ex, ok := originValue(sl.High).(*ssa.Extract); ok && ex.Tuple == ssa.Value(rd) && ex.Index == 0 {
-			okFeed = true
+	if lv := t.origin(hwF, CallSite{hw.Parent(), hw}.Args()[1]); lv.V != nil {
+		if sl, ok := lv.V.(*ssa.Slice); ok && t.origin(lv.F, sl.X) == (c02LV{root, buf}) && sl.Low == nil && sl.High != nil {
+			if hv := t.origin(lv.F, sl.High); hv.F == rdF {
+				if ex, ok := hv.V.(*ssa.Extract); ok && ex.Tuple == ssa.Value(rd) && ex.Index == 0 {
+					okFeed = true
+				}
+			}
 		}
 	}
-	hmArgs := CallSite{fn, hm}.Args()
-	f1, ok1 := fieldOfSelf(hmArgs[1])
-	_, ok0 := fieldOfSelf(hmArgs[0])
-	r.Check(okFeed && Precedes(rd, hw) && Precedes(hw, hm) && ok0 && ok1 && f1 == hashField, rule, key+"#hash-fed", p.Pos(hw.Pos()),
+	hmArgs := CallSite{hm.Parent(), hm}.Args()
+	f1, ok1 := fieldOfSelf(hmF, hmArgs[1])
+	_, ok0 := fieldOfSelf(hmF, hmArgs[0])
+	r.Check(okFeed && t.prec(rdF, rd, hwF, hw) && t.prec(hwF, hw, hmF, hm) && ok0 && ok1 && f1 == hashField, rule, key+"#hash-fed", p.Pos(hw.Pos()),
 		"the hash field is written p[:n] of this Read before HashMatches compares the receiver's ref with that same hash",
 		"the digest compared by HashMatches is not fed exactly the bytes returned by this Read (p[:n]) before the comparison")
 
 	errOfRead, _, _ := ErrValue(rd)
-	isEOFCond := func(cond ssa.Value) bool {
+	isEOFCond := func(f *c02Frame, cond ssa.Value) bool {
 		isEOF := func(v ssa.Value) bool {
-			ld, ok := originValue(v).(*ssa.UnOp)
+			ld, ok := t.origin(f, v).V.(*ssa.UnOp)
 			if !ok || ld.Op != token.MUL {
 				return false
 			}
 			g, ok := ld.X.(*ssa.Global)
 			return ok && g.Name() == "EOF" && g.Pkg != nil && g.Pkg.Pkg.Path() == "io"
 		}
+		isErr := func(v ssa.Value) bool { return t.same(f, v, rdF, errOfRead) }
 		if c, ok := c02AsCall(cond); ok && c.IsStatic("errors", "", "Is") {
-			return sameOrigin(c.Args()[0], errOfRead) && isEOF(c.Args()[1])
+			return isErr(c.Args()[0]) && isEOF(c.Args()[1])
 		}
 		if bo, ok := cond.(*ssa.BinOp); ok && bo.Op == token.EQL {
-			return sameOrigin(bo.X, errOfRead) && isEOF(bo.Y) || sameOrigin(bo.Y, errOfRead) && isEOF(bo.X)
+			return isErr(bo.X) && isEOF(bo.Y) || isErr(bo.Y) && isEOF(bo.X)
 		}
 		return false
 	}
-	isHM := func(cond ssa.Value) bool { return cond == ssa.Value(hm) }
+	isHM := func(f *c02Frame, cond ssa.Value) bool { return f == hmF && cond == ssa.Value(hm) }
 	n := 0
 	for _, ri := range Returns(fn) {
 		if len(ri.Results) != 2 {
 			continue
 		}
-		for _, in := range c02Incoming(ri.Results[1], ri.Ret.Block()) {
+		for _, in := range t.incoming(root, ri.Results[1], ri.Ret.Block(), nil, 0) {
 			n++
 			construct := key + "#eof-needs-match"
-			if !sameOrigin(in.Val, errOfRead) {
+			if !t.same(in.F, in.Val, rdF, errOfRead) {
 				if isNonNilErrorExpr(in.Val) {
 					r.OK(rule, construct, p.Pos(ri.Ret.Pos()), "returns a non-nil sentinel error (ErrCorruptBlob) on this edge")
 				} else {
@@ -770,15 +2033,15 @@ func c02RuleCoreRead(x *c02Ctx) {
 				}
 				continue
 			}
-			kE, vE := c02Fact(in.Facts, isEOFCond)
-			kH, vH := c02Fact(in.Facts, isHM)
+			kE, vE := c02FactE(in.Facts, isEOFCond)
+			kH, vH := c02FactE(in.Facts, isHM)
 			r.Check(kE && !vE || kH && vH, rule, construct, p.Pos(ri.Ret.Pos()),
 				"the underlying read error is passed on only where it is known not to be EOF or HashMatches is known true",
 				"the underlying error (possibly io.EOF) can be returned unchanged although the digest does not match: the backend would see a clean EOF and commit corrupt bytes")
 		}
 	}
 	if n == 0 {
-		r.Violation(rule, key+"#eof-needs-match", p.Pos(fn.Pos()), "no return found in checkHashReader.Read")
+		r.Violation(rule, key+"#eof-needs-match", p.Pos(fn.Pos()), "no return found in the Read method of the hash-checking reader")
 	}
 }
 
@@ -802,185 +2065,308 @@ func c02IsErrorResponder(c CallSite) bool {
 	return false
 }
 
+// respondsAlways: every path through helper frame k writes an error response.
+func (x *c02Ctx) respondsAlways(k *c02Frame, depth int) bool {
+	if k == nil || depth > 3 || len(k.fn.Blocks) == 0 || len(k.fn.Blocks[0].Instrs) == 0 {
+		return false
+	}
+	stop := func(in ssa.Instruction) bool {
+		ci, ok := in.(ssa.CallInstruction)
+		if !ok {
+			return false
+		}
+		if _, isDefer := in.(*ssa.Defer); isDefer {
+			return false
+		}
+		return c02IsErrorResponder(CallSite{in.Parent(), ci}) || x.respondsAlways(k.kidOf(in), depth+1)
+	}
+	first := k.fn.Blocks[0].Instrs[0]
+	if stop(first) {
+		return true
+	}
+	return len(LeakingExits(PathQuery{Start: first, Stop: stop, IgnorePanics: true})) == 0
+}
+
+// writesSuccess: some instruction of the subtree of k writes a non-error status.
+func (x *c02Ctx) writesSuccess(t *c02Tree, k *c02Frame) bool {
+	found := false
+	for _, f := range t.under(k) {
+		for _, c := range CallsIn(f.fn, true) {
+			if c.MethodName() == "WriteHeader" && !c02IsErrorResponder(c) {
+				found = true
+			}
+		}
+	}
+	return found
+}
+
 func c02RuleHTTP(x *c02Ctx) {
+	x.httpPut()
+	x.httpMultipart()
+	x.r.Floor("R-http", 10)
+}
+
+func (x *c02Ctx) httpPut() {
 	p, r := x.p, x.r
 	const rule = "R-http"
-	const rel = "pkg/blobserver/handlers"
-
-	// ---- PUT
-	mk := p.Func(rel, "", "CreatePutUploadHandler")
-	var h *ssa.Function
+	mk := p.Func("pkg/blobserver/handlers", "", "CreatePutUploadHandler")
+	t := x.tree(mk)
+	var g *c02Frame
 	var rc *ssa.Call
 	nrc := 0
-	c02AllInstrs(mk, func(f *ssa.Function, in ssa.Instruction) {
-		if c, ok := in.(*ssa.Call); ok && (CallSite{f, c}).IsStatic(c02BSPath, "", "Receive") {
+	t.each(func(f *c02Frame, fn *ssa.Function, in ssa.Instruction) {
+		if c, ok := in.(*ssa.Call); ok && (CallSite{fn, c}).IsStatic(c02BSPath, "", "Receive") {
 			nrc++
-			h, rc = f, c
+			g, rc = f, c
 		}
 	})
-	key := FuncKey(mk)
 	if nrc != 1 {
-		r.Violation(rule, key+"#receive", p.Pos(mk.Pos()), fmt.Sprintf("the PUT upload handler must contain exactly one call of blobserver.Receive, found %d", nrc))
-	} else {
-		key = FuncKey(h)
-		site := p.Pos(rc.Pos())
-		as := CallSite{h, rc}.Args() // ctx, dst, br, src
-		facts := FactsAt(rc.Block())
-		// destination = the storage the handler was made for
-		stor := c02ParamOfType(mk, func(t types.Type) bool { return types.Implements(t, x.recv) })
-		r.Check(stor != nil && c02Origin(as[1]) == ssa.Value(stor), rule, key+"#receive:dst", site, "Receive stores into the storage the handler was created for", "Receive's destination is not the handler's storage parameter")
-		// size guard
-		okSize := false
-		for _, f := range facts {
-			for {
-				u, isNot := f.Cond.(*ssa.UnOp)
-				if !isNot || u.Op != token.NOT {
-					break
-				}
-				f.Cond, f.Val = u.X, !f.Val
+		r.Violation(rule, FuncKey(mk)+"#receive", p.Pos(mk.Pos()), fmt.Sprintf("the PUT upload handler must contain exactly one call of blobserver.Receive, found %d", nrc))
+		return
+	}
+	h := rc.Parent()
+	key := FuncKey(h)
+	site := p.Pos(rc.Pos())
+	as := CallSite{h, rc}.Args() // ctx, dst, br, src
+	facts := t.facts(g, rc.Block())
+	// destination = the storage the handler was made for
+	stor := c02ParamOfType(mk, func(tp types.Type) bool { return types.Implements(tp, x.recv) })
+	r.Check(stor != nil && t.origin(g, as[1]) == (c02LV{t.root, stor}), rule, key+"#receive:dst", site, "Receive stores into the storage the handler was created for", "Receive's destination is not the handler's storage parameter")
+	// size guard
+	okSize := false
+	for _, ef := range facts {
+		cond, val := c02StripNot(ef.Cond, ef.Val)
+		bo, ok := cond.(*ssa.BinOp)
+		if !ok {
+			continue
+		}
+		isCL := func(v ssa.Value) bool {
+			fa, ok := c02FieldLoad(t.origin(ef.F, v).V, "ContentLength")
+			return ok && IsNamed(fa.X.Type(), "net/http", "Request")
+		}
+		var k int64
+		op := bo.Op
+		if kk, ok := t.constInt(ef.F, bo.Y); ok && isCL(bo.X) {
+			k = kk
+		} else if kk, ok := t.constInt(ef.F, bo.X); ok && isCL(bo.Y) {
+			k = kk
+			switch op { // mirror
+			case token.GTR:
+				op = token.LSS
+			case token.LSS:
+				op = token.GTR
+			case token.GEQ:
+				op = token.LEQ
+			case token.LEQ:
+				op = token.GEQ
 			}
-			bo, ok := f.Cond.(*ssa.BinOp)
-			if !ok {
+		} else {
+			continue
+		}
+		switch {
+		case op == token.GTR && !val && k <= x.maxBlob,
+			op == token.LEQ && val && k <= x.maxBlob,
+			op == token.GEQ && !val && k <= x.maxBlob+1,
+			op == token.LSS && val && k <= x.maxBlob+1:
+			okSize = true
+		}
+	}
+	r.Check(okSize, rule, key+"#receive:size-guard", site, "Receive is reached only with req.ContentLength <= MaxBlobSize", "Receive is not dominated by a ContentLength <= MaxBlobSize guard: a declared-oversize body is not refused up front")
+	// parsed ref, ok, supported
+	okParse := false
+	ref := t.origin(g, as[2])
+	if ex, ok := ref.V.(*ssa.Extract); ok && ex.Index == 0 {
+		if pc, ok := c02AsCall(ex.Tuple); ok && pc.IsStatic(c02BlobPath, "", "Parse") {
+			k, v := c02FactE(facts, func(f *c02Frame, cond ssa.Value) bool {
+				e, ok := cond.(*ssa.Extract)
+				return ok && f == ref.F && e.Tuple == ex.Tuple && e.Index == 1
+			})
+			okParse = k && v
+		}
+	}
+	r.Check(okParse, rule, key+"#receive:parsed-ref", site, "the ref is blob.Parse of the request and ok==true dominates Receive", "the ref passed to Receive is not the result of blob.Parse under ok==true")
+	k, v, _ := c02BoolCallFactE(facts, func(f *c02Frame, c CallSite) bool {
+		return c.IsStatic(c02BlobPath, "Ref", "IsSupported") && t.same(f, c.Args()[0], g, as[2])
+	})
+	r.Check(k && v, rule, key+"#receive:supported", site, "br.IsSupported()==true dominates Receive", "Receive is not dominated by br.IsSupported()==true: an unknown hash name is not refused before reading")
+	// body
+	fa, okBody := c02FieldLoad(t.origin(g, as[3]).V, "Body")
+	r.Check(okBody && IsNamed(fa.X.Type(), "net/http", "Request"), rule, key+"#receive:body", site, "the bytes received are the request body", "the reader passed to Receive is not req.Body")
+
+	// statuses: followed from Receive up through the helpers that pass its error on
+	badStatus, badLeak := "", ""
+	f, call := g, rc
+	for level := 0; level <= c02MaxDepth; level++ {
+		fn := call.Parent()
+		ev, hasErr, disc := ErrValue(call)
+		if !hasErr || disc {
+			badStatus = "the error of Receive (or of the helper that passes it on) is discarded"
+			badLeak = badStatus
+			break
+		}
+		nilAt := func(b *ssa.BasicBlock) bool { k, isNil := c02NilKnown(b, ev); return k && isNil }
+		for _, c := range CallsIn(fn, false) {
+			if c.IsDefer() || !Precedes(call, c.Instr) || nilAt(c.Block()) {
 				continue
 			}
-			isCL := func(v ssa.Value) bool {
-				fa, ok := c02FieldLoad(originValue(v), "ContentLength")
-				return ok && IsNamed(fa.X.Type(), "net/http", "Request")
-			}
-			var k int64
-			op := bo.Op
-			if kk, ok := ConstInt(bo.Y); ok && isCL(bo.X) {
-				k = kk
-			} else if kk, ok := ConstInt(bo.X); ok && isCL(bo.Y) {
-				k = kk
-				switch op { // mirror
-				case token.GTR:
-					op = token.LSS
-				case token.LSS:
-					op = token.GTR
-				case token.GEQ:
-					op = token.LEQ
-				case token.LEQ:
-					op = token.GEQ
-				}
-			} else {
-				continue
-			}
-			switch {
-			case op == token.GTR && !f.Val && k <= x.maxBlob,
-				op == token.LEQ && f.Val && k <= x.maxBlob,
-				op == token.GEQ && !f.Val && k <= x.maxBlob+1,
-				op == token.LSS && f.Val && k <= x.maxBlob+1:
-				okSize = true
+			if c.MethodName() == "WriteHeader" && !c02IsErrorResponder(c) {
+				badStatus = "a non-error status is written where Receive's error is not known nil"
+			} else if k := f.kidOf(c.Instr); k != nil && x.writesSuccess(t, k) {
+				badStatus = "a helper that writes a non-error status is called where Receive's error is not known nil"
 			}
 		}
-		r.Check(okSize, rule, key+"#receive:size-guard", site, "Receive is reached only with req.ContentLength <= MaxBlobSize", "Receive is not dominated by a ContentLength <= MaxBlobSize guard: a declared-oversize body is not refused up front")
-		// parsed ref, ok, supported
-		okParse := false
-		ref := c02Origin(as[2])
-		if ex, ok := ref.(*ssa.Extract); ok && ex.Index == 0 {
-			if pc, ok := c02AsCall(ex.Tuple); ok && pc.IsStatic(c02BlobPath, "", "Parse") {
-				k, v := c02Fact(facts, func(cond ssa.Value) bool {
-					e, ok := cond.(*ssa.Extract)
-					return ok && e.Tuple == ex.Tuple && e.Index == 1
-				})
-				okParse = k && v
+		retVal := map[*ssa.Return]ssa.Value{}
+		if idx := ErrResultIndex(fn); idx >= 0 {
+			for _, ri := range Returns(fn) {
+				retVal[ri.Ret] = ri.Results[idx]
 			}
 		}
-		r.Check(okParse, rule, key+"#receive:parsed-ref", site, "the ref is blob.Parse of the request and ok==true dominates Receive", "the ref passed to Receive is not the result of blob.Parse under ok==true")
-		k, v, _ := BoolCallFact(rc.Block(), func(c CallSite) bool {
-			return c.IsStatic(c02BlobPath, "Ref", "IsSupported") && sameOrigin(c.Args()[0], as[2])
-		})
-		r.Check(k && v, rule, key+"#receive:supported", site, "br.IsSupported()==true dominates Receive", "Receive is not dominated by br.IsSupported()==true: an unknown hash name is not refused before reading")
-		// body
-		fa, okBody := c02FieldLoad(c02Origin(as[3]), "Body")
-		r.Check(okBody && IsNamed(fa.X.Type(), "net/http", "Request"), rule, key+"#receive:body", site, "the bytes received are the request body", "the reader passed to Receive is not req.Body")
-		// statuses
-		ev, _, disc := ErrValue(rc)
-		nilAt := func(b *ssa.BasicBlock) bool { k, isNil := NilFact(b, ev); return k && isNil }
-		bad := ""
-		if disc {
-			bad = "the error of Receive is discarded"
-		}
-		for _, c := range CallsIn(h, false) {
-			if c.MethodName() == "WriteHeader" && !c02IsErrorResponder(c) && Precedes(rc, c.Instr) && !nilAt(c.Block()) {
-				bad = "a non-error status is written where Receive's error is not known nil"
-			}
-		}
-		r.Check(bad == "", rule, key+"#success-status", site, "a non-error status is written only on the err==nil edge of Receive", bad)
+		passesOn := false
+		canPass := fn == f.fn && f.parent != nil
 		leaks := LeakingExits(PathQuery{
-			Start: rc,
+			Start: call,
 			Stop: func(in ssa.Instruction) bool {
-				if in.Block() != rc.Block() && nilAt(in.Block()) {
+				if in.Block() != call.Block() && nilAt(in.Block()) {
 					return true // this path went through the err==nil edge
 				}
 				ci, ok := in.(ssa.CallInstruction)
-				return ok && c02IsErrorResponder(CallSite{h, ci})
+				if !ok {
+					return false
+				}
+				if _, isDefer := in.(*ssa.Defer); isDefer {
+					return false
+				}
+				return c02IsErrorResponder(CallSite{fn, ci}) || x.respondsAlways(f.kidOf(in), 0)
 			},
-			ExitOK:       func(exit ssa.Instruction) bool { return nilAt(exit.Block()) },
+			ExitOK: func(exit ssa.Instruction) bool {
+				if nilAt(exit.Block()) {
+					return true
+				}
+				ret, ok := exit.(*ssa.Return)
+				if !ok || !canPass {
+					return false
+				}
+				rv := retVal[ret]
+				if rv == nil {
+					return false
+				}
+				nonNil := sameOrigin(rv, ev) || isNonNilErrorExpr(rv)
+				if !nonNil {
+					if k, isNil := c02NilKnown(exit.Block(), rv); k && !isNil {
+						nonNil = true
+					}
+				}
+				if nonNil {
+					passesOn = true
+				}
+				return nonNil
+			},
 			IgnorePanics: true,
 		})
-		detail := ""
 		if len(leaks) > 0 {
-			detail = fmt.Sprintf("a path from Receive to the return at line %d passes no error response although Receive's error is not known nil there: a rejected upload would be answered with a success status", p.Fset.Position(leaks[0].Exit.Pos()).Line)
+			badLeak = fmt.Sprintf("a path from Receive to the return at line %d passes no error response although Receive's error is not known nil there: a rejected upload would be answered with a success status", p.Fset.Position(leaks[0].Exit.Pos()).Line)
+			break
 		}
-		r.Check(len(leaks) == 0 && !disc, rule, key+"#error-status", site, "every path on which Receive's error may be non-nil writes an error response before returning", detail)
+		if !passesOn {
+			break
+		}
+		sc, isCall := f.site.(*ssa.Call)
+		if !isCall {
+			badLeak = "the helper that passes Receive's error on runs in a goroutine of its own"
+			break
+		}
+		f, call = f.parent, sc
 	}
+	r.Check(badStatus == "", rule, key+"#success-status", site, "a non-error status is written only on the err==nil edge of Receive", badStatus)
+	r.Check(badLeak == "", rule, key+"#error-status", site, "every path on which Receive's error may be non-nil writes an error response before returning", badLeak)
+}
 
-	// ---- multipart
-	mp := p.Func(rel, "", "handleMultiPartUpload")
-	mkey := FuncKey(mp)
-	stor := c02ParamOfType(mp, func(t types.Type) bool { return types.Implements(t, x.recv) })
-	var rcs []*ssa.Call
-	for _, c := range CallsIn(mp, true) {
-		if c.IsStatic(c02BSPath, "", "Receive") && c.Value() != nil {
-			rcs = append(rcs, c.Value())
-			r.Check(c.Fn == mp && stor != nil && c02Origin(c.Args()[1]) == ssa.Value(stor), rule, mkey+"#receive:dst", p.Pos(c.Pos()),
-				"Receive stores into the handler's storage", "Receive's destination is not the handler's storage parameter")
-		}
+func (x *c02Ctx) httpMultipart() {
+	p, r := x.p, x.r
+	const rule = "R-http"
+	mk := p.Func("pkg/blobserver/handlers", "", "CreateBatchUploadHandler")
+	t := x.tree(mk)
+	root := t.root
+	stor := c02ParamOfType(mk, func(tp types.Type) bool { return types.Implements(tp, x.recv) })
+	type recvCall struct {
+		f *c02Frame
+		c *ssa.Call
 	}
-	if len(rcs) == 0 {
-		r.Violation(rule, mkey+"#receive", p.Pos(mp.Pos()), "the multipart upload handler no longer calls blobserver.Receive")
-	}
-	// what is listed as received
-	var appends []*ssa.Call
-	seen := map[ssa.Value]bool{}
-	badLeaf := ""
-	var walk func(v ssa.Value)
-	walk = func(v ssa.Value) {
-		if v == nil || seen[v] {
+	var rcs []recvCall
+	t.each(func(f *c02Frame, fn *ssa.Function, in ssa.Instruction) {
+		c, ok := in.(*ssa.Call)
+		if !ok || !(CallSite{fn, c}).IsStatic(c02BSPath, "", "Receive") {
 			return
 		}
-		seen[v] = true
-		switch t := v.(type) {
+		rcs = append(rcs, recvCall{f, c})
+		r.Check(stor != nil && t.origin(f, c.Call.Args[1]) == (c02LV{root, stor}), rule, FuncKey(TopFunc(fn))+"#receive:dst", p.Pos(c.Pos()),
+			"Receive stores into the handler's storage", "Receive's destination is not the handler's storage parameter")
+	})
+	mkey := FuncKey(mk)
+	if len(rcs) == 0 {
+		r.Violation(rule, mkey+"#receive", p.Pos(mk.Pos()), "the multipart upload handler no longer calls blobserver.Receive")
+	}
+	// what is listed as received
+	type app struct {
+		f *c02Frame
+		c *ssa.Call
+	}
+	var appends []app
+	seen := map[c02LV]bool{}
+	badLeaf := ""
+	var walk func(f *c02Frame, v ssa.Value)
+	walk = func(f *c02Frame, v ssa.Value) {
+		if v == nil {
+			return
+		}
+		lv := t.origin(f, v)
+		if seen[lv] {
+			return
+		}
+		seen[lv] = true
+		f, v = lv.F, lv.V
+		switch tv := v.(type) {
 		case *ssa.Phi:
-			for _, e := range t.Edges {
-				walk(e)
+			for _, e := range tv.Edges {
+				walk(f, e)
 			}
 		case *ssa.Call:
-			if b, ok := t.Call.Value.(*ssa.Builtin); ok && b.Name() == "append" {
-				appends = append(appends, t)
-				walk(t.Call.Args[0])
+			if b, ok := tv.Call.Value.(*ssa.Builtin); ok && b.Name() == "append" {
+				appends = append(appends, app{f, tv})
+				walk(f, tv.Call.Args[0])
 				return
 			}
-			badLeaf = "Received is built from the result of " + (CallSite{t.Parent(), t}).CalleeKey()
+			if k := f.kids[tv]; k != nil && tv.Call.Signature().Results().Len() == 1 {
+				for _, ri := range Returns(k.fn) {
+					walk(k, ri.Results[0])
+				}
+				return
+			}
+			badLeaf = "Received is built from the result of " + (CallSite{tv.Parent(), tv}).CalleeKey()
+		case *ssa.Extract:
+			if call, ok := tv.Tuple.(*ssa.Call); ok {
+				if k := f.kids[call]; k != nil {
+					for _, ri := range Returns(k.fn) {
+						walk(k, ri.Results[tv.Index])
+					}
+					return
+				}
+			}
+			badLeaf = "Received is built from one of several results of a call"
 		case *ssa.Slice:
-			if _, ok := t.X.(*ssa.Alloc); !ok {
+			if _, ok := tv.X.(*ssa.Alloc); !ok {
 				badLeaf = "Received is built from a slice of unknown origin"
 			}
 		case *ssa.Const, *ssa.MakeSlice:
 		case *ssa.UnOp:
-			if o := originValue(t); o != ssa.Value(t) {
-				walk(o)
-			} else {
-				badLeaf = "Received is loaded from a variable with several stores"
-			}
+			badLeaf = "Received is loaded from a variable with several stores"
 		default:
 			badLeaf = fmt.Sprintf("Received is built from a %T", v)
 		}
 	}
 	nstore := 0
-	c02AllInstrs(mp, func(f *ssa.Function, in ssa.Instruction) {
+	var listFn *ssa.Function
+	t.each(func(f *c02Frame, fn *ssa.Function, in ssa.Instruction) {
 		st, ok := in.(*ssa.Store)
 		if !ok {
 			return
@@ -988,29 +2374,35 @@ func c02RuleHTTP(x *c02Ctx) {
 		fa, ok := st.Addr.(*ssa.FieldAddr)
 		if ok && fieldName(fa.X.Type(), fa.Field) == "Received" && IsNamed(fa.X.Type(), "perkeep.org/pkg/blobserver/protocol", "UploadResponse") {
 			nstore++
-			walk(st.Val)
+			listFn = TopFunc(fn)
+			walk(f, st.Val)
 		}
 	})
+	if listFn != nil {
+		mkey = FuncKey(listFn)
+	}
 	if nstore == 0 || badLeaf != "" || len(appends) == 0 {
 		if badLeaf == "" {
 			badLeaf = "no store to UploadResponse.Received built by append found"
 		}
-		r.Undecided(rule, mkey+"#received-list", p.Pos(mp.Pos()), badLeaf)
+		r.Undecided(rule, mkey+"#received-list", p.Pos(mk.Pos()), badLeaf)
 	}
-	for _, ap := range appends {
+	for _, a := range appends {
+		ap := a.c
 		site := p.Pos(ap.Pos())
-		construct := mkey + "#received-list:append"
-		var guardErr ssa.Value
+		akey := FuncKey(TopFunc(ap.Parent()))
+		construct := akey + "#received-list:append"
 		ok := true
 		detail := ""
-		elems := c02Elems(ap.Call.Args[1])
-		for _, e := range elems {
-			ex, isEx := c02Origin(e).(*ssa.Extract)
-			var src *ssa.Call
+		var guards []recvCall
+		for _, e := range c02Elems(ap.Call.Args[1]) {
+			lv := t.origin(a.f, e)
+			ex, isEx := lv.V.(*ssa.Extract)
+			var src *recvCall
 			if isEx && ex.Index == 0 {
-				for _, c := range rcs {
-					if ex.Tuple == ssa.Value(c) {
-						src = c
+				for i := range rcs {
+					if rcs[i].f == lv.F && ex.Tuple == ssa.Value(rcs[i].c) {
+						src = &rcs[i]
 					}
 				}
 			}
@@ -1018,21 +2410,21 @@ func c02RuleHTTP(x *c02Ctx) {
 				ok, detail = false, "an element appended to the Received list is not the SizedRef returned by blobserver.Receive"
 				break
 			}
-			ev, _, disc := ErrValue(src)
-			if k, isNil := NilFact(ap.Block(), ev); disc || !(k && isNil) {
+			if o, _ := t.succDom(src.f, src.c, a.f, ap); !o {
 				ok, detail = false, "a blob is appended to the Received list where the error of its Receive is not known nil: a rejected part would be listed as received"
 				break
 			}
-			guardErr = ev
+			guards = append(guards, *src)
 		}
 		r.Check(ok, rule, construct, site, "only SizedRefs returned by Receive are listed, and only where that Receive's (overridden) error is known nil", detail)
-		if !ok || guardErr == nil {
+		if !ok || len(guards) == 0 {
 			continue
 		}
 		// the oversize override: the error tested by the guard merges Receive's error with a non-nil error raised when the counted bytes reached MaxBlobSize+1
 		okOver := false
-		for _, f := range FactsAt(ap.Block()) {
-			bo, isBo := f.Cond.(*ssa.BinOp)
+		for _, ef := range t.facts(a.f, ap.Block()) {
+			cond, _ := c02StripNot(ef.Cond, ef.Val)
+			bo, isBo := cond.(*ssa.BinOp)
 			if !isBo {
 				continue
 			}
@@ -1042,88 +2434,94 @@ func c02RuleHTTP(x *c02Ctx) {
 			} else if IsNilConst(bo.X) {
 				tested = bo.Y
 			}
-			ph, isPhi := tested.(*ssa.Phi)
-			if !isPhi || !sameOrigin(ph, guardErr) {
+			if tested == nil {
 				continue
 			}
-			for _, in := range c02Incoming(ph, ph.Block()) {
-				if !isNonNilErrorExpr(in.Val) {
+			ins := t.incoming(ef.F, tested, bo.Block(), nil, 0)
+			for _, gd := range guards {
+				ev, _, _ := ErrValue(gd.c)
+				covers := false
+				for _, in := range ins {
+					if in.F == gd.f && sameOrigin(in.Val, ev) {
+						covers = true
+					}
+				}
+				if !covers {
 					continue
 				}
-				k, v := c02Fact(in.Facts, func(cond ssa.Value) bool {
-					b, ok := cond.(*ssa.BinOp)
-					if !ok {
-						return false
+				for _, in := range ins {
+					if !isNonNilErrorExpr(in.Val) {
+						continue
 					}
-					n, okc := ConstInt(b.Y)
-					ld, okl := b.X.(*ssa.UnOp)
-					if !okc || !okl || ld.Op != token.MUL {
-						return false
+					k, v := c02FactE(in.Facts, func(f *c02Frame, cond ssa.Value) bool {
+						b, ok := cond.(*ssa.BinOp)
+						if !ok {
+							return false
+						}
+						n, okc := t.constInt(f, b.Y)
+						ld, okl := b.X.(*ssa.UnOp)
+						if !okc || !okl || ld.Op != token.MUL {
+							return false
+						}
+						return x.countsReceive(t, f, ld.X, n, gd.f, gd.c) && (b.Op == token.EQL && n == x.maxBlob+1 || b.Op == token.GTR && n == x.maxBlob || b.Op == token.GEQ && n == x.maxBlob+1)
+					})
+					if k && v {
+						okOver = true
 					}
-					return x.c02CountsReceive(ld.X, n, rcs) && (b.Op == token.EQL && n == x.maxBlob+1 || b.Op == token.GTR && n == x.maxBlob || b.Op == token.GEQ && n == x.maxBlob+1)
-				})
-				if k && v {
-					okOver = true
 				}
 			}
 		}
-		r.Check(okOver, rule, mkey+"#oversize-override", site,
+		r.Check(okOver, rule, akey+"#oversize-override", site,
 			"the error guarding the listing merges Receive's error with a non-nil error raised when the part's counted size reached MaxBlobSize+1 (the part reader is limited to exactly that)",
 			"the listing guard no longer includes the 'blob over the limit' override on a byte counter of the part limited to MaxBlobSize+1: an oversize part whose 16 MiB prefix matches would be listed as received")
 	}
-	r.Floor(rule, 10)
 }
 
-// c02CountsReceive: cell is the N counter of a readerutil.CountingReader handed
-// to one of the Receive calls, whose Reader is io.LimitReader(_, limit).
-func (x *c02Ctx) c02CountsReceive(cell ssa.Value, limit int64, rcs []*ssa.Call) bool {
-	for _, rc := range rcs {
-		as := CallSite{rc.Parent(), rc}.Args()
-		al, ok := c02Origin(as[3]).(*ssa.Alloc)
-		if !ok || al.Referrers() == nil {
+// countsReceive: cell (an address of frame cf) is the N counter of a
+// readerutil.CountingReader handed to the Receive call rc, whose Reader is
+// io.LimitReader(_, limit).
+func (x *c02Ctx) countsReceive(t *c02Tree, cf *c02Frame, cell ssa.Value, limit int64, rf *c02Frame, rc *ssa.Call) bool {
+	lv := t.origin(rf, rc.Call.Args[3])
+	al, ok := lv.V.(*ssa.Alloc)
+	if !ok || al.Referrers() == nil {
+		return false
+	}
+	okN, okR := false, false
+	for _, u := range *al.Referrers() {
+		fa, ok := u.(*ssa.FieldAddr)
+		if !ok || fa.Referrers() == nil {
 			continue
 		}
-		okN, okR := false, false
-		for _, u := range *al.Referrers() {
-			fa, ok := u.(*ssa.FieldAddr)
-			if !ok || fa.Referrers() == nil {
+		for _, uu := range *fa.Referrers() {
+			st, ok := uu.(*ssa.Store)
+			if !ok || st.Addr != ssa.Value(fa) {
 				continue
 			}
-			for _, uu := range *fa.Referrers() {
-				st, ok := uu.(*ssa.Store)
-				if !ok || st.Addr != ssa.Value(fa) {
-					continue
-				}
-				switch fieldName(fa.X.Type(), fa.Field) {
-				case "N":
-					okN = st.Val == cell
-				case "Reader":
-					if lc, ok := c02AsCall(c02Origin(st.Val)); ok && lc.IsStatic("io", "", "LimitReader") {
-						n, okc := ConstInt(lc.Args()[1])
-						okR = okc && n == limit
-					}
-				}
+			switch fieldName(fa.X.Type(), fa.Field) {
+			case "N":
+				okN = t.origin(lv.F, st.Val) == t.origin(cf, cell)
+			case "Reader":
+				_, n, okc := t.limited(lv.F, st.Val)
+				okR = okc && n == limit
 			}
 		}
-		if okN && okR {
-			return true
-		}
 	}
-	return false
+	return okN && okR
 }
 
 // ---------------------------------------------------------------------------
-// R-commit / R-verdict: forward taint of the source reader
+// R-commit / R-verdict: forward taint of the source reader over the effective body
 
 type c02Consumer struct {
+	F    *c02Frame
 	C    CallSite
 	Kind string // full | delegate | opaque | partial
 }
 
 type c02Flow struct {
-	top       *ssa.Function
-	src       *ssa.Parameter
-	tainted   map[ssa.Value]bool
+	t         *c02Tree
+	top       *c02Frame
+	tainted   map[c02LV]bool
 	consumers []c02Consumer
 }
 
@@ -1158,102 +2556,129 @@ func c02BaseObj(addr ssa.Value) ssa.Value {
 	return nil
 }
 
-func (x *c02Ctx) flowOf(top *ssa.Function, src *ssa.Parameter) *c02Flow {
-	fl := &c02Flow{top: top, src: src, tainted: map[ssa.Value]bool{src: true}}
-	isT := func(v ssa.Value) bool {
-		if v == nil {
-			return false
-		}
-		if fl.tainted[v] {
-			return true
-		}
-		if fv, ok := v.(*ssa.FreeVar); ok {
-			if b := bindingOf(fv); b != nil && fl.tainted[b] {
-				return true
-			}
-		}
-		return false
-	}
-	mark := func(v ssa.Value, changed *bool) {
-		if v != nil && !fl.tainted[v] && c02Taintable(v.Type()) {
-			fl.tainted[v] = true
-			*changed = true
-		}
-	}
-	seenCons := map[ssa.Instruction]bool{}
+// flowOf propagates the taint of src (a parameter of frame top) through the
+// subtree of top: wrappers, variables, literals, and helper parameters.
+func (x *c02Ctx) flowOf(t *c02Tree, top *c02Frame, src *ssa.Parameter) *c02Flow {
+	fl := &c02Flow{t: t, top: top, tainted: map[c02LV]bool{{top, src}: true}}
+	frames := t.under(top)
+	seenCons := map[c02Loc]bool{}
 	for round := 0; round < 20; round++ {
 		changed := false
-		c02AllInstrs(top, func(f *ssa.Function, in ssa.Instruction) {
-			switch t := in.(type) {
-			case *ssa.Store:
-				if isT(t.Val) {
-					if b := c02BaseObj(t.Addr); b != nil {
-						mark(b, &changed)
+		for _, fr := range frames {
+			fr := fr
+			isT := func(v ssa.Value) bool {
+				if v == nil {
+					return false
+				}
+				if fl.tainted[c02LV{fr, v}] {
+					return true
+				}
+				if fv, ok := v.(*ssa.FreeVar); ok {
+					if b := bindingOf(fv); b != nil && fl.tainted[c02LV{fr, b}] {
+						return true
 					}
 				}
-			case *ssa.UnOp:
-				if t.Op == token.MUL {
-					if b := c02BaseObj(t.X); b != nil && isT(b) {
-						mark(t, &changed)
+				return false
+			}
+			mark := func(v ssa.Value) {
+				if v != nil && !fl.tainted[c02LV{fr, v}] && c02Taintable(v.Type()) {
+					fl.tainted[c02LV{fr, v}] = true
+					changed = true
+				}
+			}
+			any := false
+			for lv := range fl.tainted {
+				if lv.F == fr {
+					any = true
+					break
+				}
+			}
+			if !any {
+				continue
+			}
+			c02AllInstrs(fr.fn, func(f *ssa.Function, in ssa.Instruction) {
+				switch tv := in.(type) {
+				case *ssa.Store:
+					if isT(tv.Val) {
+						if b := c02BaseObj(tv.Addr); b != nil {
+							mark(b)
+						}
 					}
-				}
-			case *ssa.MakeInterface:
-				if isT(t.X) {
-					mark(t, &changed)
-				}
-			case *ssa.ChangeInterface:
-				if isT(t.X) {
-					mark(t, &changed)
-				}
-			case *ssa.ChangeType:
-				if isT(t.X) {
-					mark(t, &changed)
-				}
-			case *ssa.TypeAssert:
-				if isT(t.X) {
-					mark(t, &changed)
-				}
-			case *ssa.Slice:
-				if isT(t.X) {
-					mark(t, &changed)
-				}
-			case *ssa.Phi:
-				for _, e := range t.Edges {
-					if isT(e) {
-						mark(t, &changed)
+				case *ssa.UnOp:
+					if tv.Op == token.MUL {
+						if b := c02BaseObj(tv.X); b != nil && isT(b) {
+							mark(tv)
+						}
 					}
-				}
-			case ssa.CallInstruction:
-				c := CallSite{f, t}
-				hit := false
-				for _, a := range c02ArgsExpanded(c) {
-					if isT(a) {
-						hit = true
+				case *ssa.MakeInterface:
+					if isT(tv.X) {
+						mark(tv)
 					}
-				}
-				if !hit {
-					return
-				}
-				kind := x.consumerKind(c, isT)
-				val := c.Value()
-				if val != nil {
-					res := val.Call.Signature().Results()
-					if res.Len() == 1 && x.isReaderType(res.At(0).Type()) {
-						mark(val, &changed)
-					} else if res.Len() > 1 && val.Referrers() != nil {
-						for _, u := range *val.Referrers() {
-							if ex, ok := u.(*ssa.Extract); ok && x.isReaderType(res.At(ex.Index).Type()) {
-								mark(ex, &changed)
+				case *ssa.ChangeInterface:
+					if isT(tv.X) {
+						mark(tv)
+					}
+				case *ssa.ChangeType:
+					if isT(tv.X) {
+						mark(tv)
+					}
+				case *ssa.TypeAssert:
+					if isT(tv.X) {
+						mark(tv)
+					}
+				case *ssa.Slice:
+					if isT(tv.X) {
+						mark(tv)
+					}
+				case *ssa.Phi:
+					for _, e := range tv.Edges {
+						if isT(e) {
+							mark(tv)
+						}
+					}
+				case ssa.CallInstruction:
+					c := CallSite{f, tv}
+					hit := false
+					for _, a := range c02ArgsExpanded(c) {
+						if isT(a) {
+							hit = true
+						}
+					}
+					if !hit {
+						return
+					}
+					if k := fr.kidOf(in); k != nil {
+						// the helper's parameters stand for the arguments
+						for i, a := range tv.Common().Args {
+							if isT(a) && i < len(k.fn.Params) && c02Taintable(k.fn.Params[i].Type()) {
+								if lv := (c02LV{k, k.fn.Params[i]}); !fl.tainted[lv] {
+									fl.tainted[lv] = true
+									changed = true
+								}
 							}
 						}
 					}
+					kind := x.consumerKind(c, isT)
+					val := c.Value()
+					if val != nil {
+						res := val.Call.Signature().Results()
+						if res.Len() == 1 && x.isReaderType(res.At(0).Type()) {
+							mark(val)
+						} else if res.Len() > 1 && val.Referrers() != nil {
+							for _, u := range *val.Referrers() {
+								if ex, ok := u.(*ssa.Extract); ok && x.isReaderType(res.At(ex.Index).Type()) {
+									mark(ex)
+								}
+							}
+						}
+					}
+					if kind != "" && !seenCons[c02Loc{fr, in}] {
+						seenCons[c02Loc{fr, in}] = true
+						fl.consumers = append(fl.consumers, c02Consumer{fr, c, kind})
+					}
 				}
-				if kind != "" && !seenCons[in] {
-					seenCons[in] = true
-					fl.consumers = append(fl.consumers, c02Consumer{c, kind})
-				}
-			}
-		})
+			})
+		}
 		if !changed {
 			break
 		}
@@ -1298,62 +2723,116 @@ func (x *c02Ctx) consumerKind(c CallSite, isT func(ssa.Value) bool) string {
 	return "opaque"
 }
 
-// c02CommitHelpers: calls that make a received blob visible and are neither a
-// delegated receive, a sorted.KeyValue write, a rename nor a receiver-map store.
-// One symbol, one reason.
-var c02CommitHelpers = map[string]string{
-	"pkg/blobserver/diskpacked.(*storage).append": "appends the record to the pack file and writes the index row",
-	"pkg/index.(*Index).commit":                   "writes the blob's index rows",
-	"pkg/blobserver/stats.(*Receiver).ReceiveRef": "records the ref in the Have map",
-	"pkg/server.(*SyncHandler).enqueue":           "puts the blob on the sync queue",
+// c02CommitCalls: calls outside the module's same-package reach that make a
+// received blob visible and are neither a delegated receive, a sorted.KeyValue
+// write, a rename nor a receiver-map store. One symbol, one reason. (Helpers of
+// the store's own package need no entry: their commit points are found in the
+// effective body.)
+var c02CommitCalls = map[string]string{
 	"internal/azure/storage.(*Client).PutObject":  "creates the Azure object",
 	"cloud.google.com/go/storage.(*Writer).Close": "the GCS object becomes visible when the writer is closed",
 	"gopkg.in/mgo.v2.(*Collection).Insert":        "inserts the blob document",
 }
 
 type c02Commit struct {
+	F    *c02Frame
 	In   ssa.Instruction
 	Fn   *ssa.Function
 	Kind string
 	Name string
 }
 
-func (x *c02Ctx) commitPoints(top *ssa.Function) []c02Commit {
-	var out []c02Commit
-	recvName := ""
-	if len(top.Params) > 0 && top.Signature.Recv() != nil {
-		recvName = top.Params[0].Name()
+// recvPath renders v (a value of frame f) as a path below the receiver of the
+// tree's root ("m", "index.kv"), "" if it is not rooted there.
+func (t *c02Tree) recvPath(f *c02Frame, v ssa.Value) string {
+	root := t.root.fn
+	if root.Signature.Recv() == nil || len(root.Params) == 0 {
+		return ""
 	}
-	c02AllInstrs(top, func(f *ssa.Function, in ssa.Instruction) {
-		switch t := in.(type) {
-		case *ssa.MapUpdate:
-			pth := AccessPath(t.Map)
-			if recvName != "" && strings.HasPrefix(pth, recvName+".") {
-				out = append(out, c02Commit{in, f, "map", "map:" + strings.TrimPrefix(pth, recvName+".")})
+	var names []string
+	for i := 0; i < 16 && v != nil; i++ {
+		lv := t.origin(f, v)
+		f, v = lv.F, lv.V
+		switch tv := v.(type) {
+		case *ssa.Parameter:
+			if f == t.root && tv == root.Params[0] && len(names) > 0 {
+				return strings.Join(names, ".")
 			}
-		case ssa.CallInstruction:
-			c := CallSite{f, t}
-			if c.IsDefer() {
-				return
+			return ""
+		case *ssa.UnOp:
+			if tv.Op != token.MUL {
+				return ""
 			}
-			key := c.CalleeKey()
-			switch {
-			case x.isReceiveBlobCall(c):
-				out = append(out, c02Commit{in, f, "receive", "ReceiveBlob:" + c02StablePath(c.Args()[0])})
-			case c.IsMethod("Set", x.kv) || c.IsMethod("Delete", x.kv) || c.IsMethod("CommitBatch", x.kv):
-				out = append(out, c02Commit{in, f, "kv", c.MethodName() + ":" + c02StablePath(c.Args()[0])})
-			case c.IsMethod("Rename", x.vfs) || c.IsStatic("os", "", "Rename"):
-				out = append(out, c02Commit{in, f, "rename", "Rename"})
-			default:
-				if n, ok := c02IsReceiveFamily(c); ok {
-					out = append(out, c02Commit{in, f, "receive", n + ":" + c02StablePath(c.Args()[1])})
-				} else if _, ok := c02CommitHelpers[key]; ok {
-					x.k5seen[key] = true
-					out = append(out, c02Commit{in, f, "helper", key})
+			v = tv.X
+		case *ssa.FieldAddr:
+			names = append([]string{fieldName(tv.X.Type(), tv.Field)}, names...)
+			v = tv.X
+		case *ssa.Field:
+			names = append([]string{fieldName(tv.X.Type(), tv.Field)}, names...)
+			v = tv.X
+		case *ssa.Alloc:
+			p := c02SpillParam(tv)
+			if p == nil {
+				return ""
+			}
+			v = p
+		default:
+			return ""
+		}
+	}
+	return ""
+}
+
+// stablePath renders a destination for a construct key without SSA register names.
+func (t *c02Tree) stablePath(f *c02Frame, v ssa.Value) string {
+	lv := t.origin(f, v)
+	if lv.F == t.root {
+		return c02StablePath(lv.V)
+	}
+	if rp := t.recvPath(f, v); rp != "" && len(t.root.fn.Params) > 0 {
+		return t.root.fn.Params[0].Name() + "." + rp
+	}
+	return c02StablePath(v)
+}
+
+func (x *c02Ctx) commitPoints(t *c02Tree, top *c02Frame) []c02Commit {
+	var out []c02Commit
+	for _, fr := range t.under(top) {
+		fr := fr
+		at := ""
+		if fr != top {
+			at = "@" + strings.TrimPrefix(strings.TrimPrefix(fr.chain(), top.chain()), "/")
+		}
+		c02AllInstrs(fr.fn, func(f *ssa.Function, in ssa.Instruction) {
+			switch tv := in.(type) {
+			case *ssa.MapUpdate:
+				if pth := t.recvPath(fr, tv.Map); pth != "" {
+					out = append(out, c02Commit{fr, in, f, "map", "map:" + pth + at})
+				}
+			case ssa.CallInstruction:
+				c := CallSite{f, tv}
+				if c.IsDefer() {
+					return
+				}
+				key := c.CalleeKey()
+				switch {
+				case x.isReceiveBlobCall(c):
+					out = append(out, c02Commit{fr, in, f, "receive", "ReceiveBlob:" + t.stablePath(fr, c.Args()[0]) + at})
+				case c.IsMethod("Set", x.kv) || c.IsMethod("Delete", x.kv) || c.IsMethod("CommitBatch", x.kv):
+					out = append(out, c02Commit{fr, in, f, "kv", c.MethodName() + ":" + t.stablePath(fr, c.Args()[0]) + at})
+				case c.IsMethod("Rename", x.vfs) || c.IsStatic("os", "", "Rename"):
+					out = append(out, c02Commit{fr, in, f, "rename", "Rename" + at})
+				default:
+					if n, ok := c02IsReceiveFamily(c); ok {
+						out = append(out, c02Commit{fr, in, f, "receive", n + ":" + t.stablePath(fr, c.Args()[1]) + at})
+					} else if _, ok := c02CommitCalls[key]; ok {
+						x.k5seen[key] = true
+						out = append(out, c02Commit{fr, in, f, "helper", key + at})
+					}
 				}
 			}
-		}
-	})
+		})
+	}
 	return out
 }
 
@@ -1361,20 +2840,43 @@ func (x *c02Ctx) readerParam(fn *ssa.Function) *ssa.Parameter {
 	return c02ParamOfType(fn, func(t types.Type) bool { return IsNamed(t, "io", "Reader") })
 }
 
-// hashMatchFact: a HashMatches call on fn's own ref parameter is known true at block b.
-func (x *c02Ctx) hashMatchTrue(top *ssa.Function, b *ssa.BasicBlock) bool {
-	ref := c02ParamOfType(top, c02IsBlobRef)
-	k, v, _ := BoolCallFact(b, func(c CallSite) bool {
-		return c.IsStatic(c02BlobPath, "Ref", "HashMatches") && (ref == nil || c02Origin(c.Args()[0]) == ssa.Value(ref))
+// hashMatchTrue: a HashMatches call on the root's own ref parameter is known true at instruction in of frame f.
+func (x *c02Ctx) hashMatchTrue(t *c02Tree, f *c02Frame, in ssa.Instruction) bool {
+	ref := c02ParamOfType(t.root.fn, c02IsBlobRef)
+	facts := t.facts(f, in.Block())
+	k, v, _ := c02BoolCallFactE(facts, func(cf *c02Frame, c CallSite) bool {
+		return c.IsStatic(c02BlobPath, "Ref", "HashMatches") && (ref == nil || t.origin(cf, c.Args()[0]) == (c02LV{t.root, ref}))
 	})
 	return k && v
 }
 
-func (x *c02Ctx) comparesDigest(top *ssa.Function) bool {
-	for _, c := range CallsIn(top, true) {
-		if c.IsStatic(c02BlobPath, "Ref", "HashMatches") {
-			return true
+func (x *c02Ctx) comparesDigest(t *c02Tree) bool {
+	found := false
+	t.each(func(f *c02Frame, fn *ssa.Function, in ssa.Instruction) {
+		if ci, ok := in.(ssa.CallInstruction); ok && (CallSite{fn, ci}).IsStatic(c02BlobPath, "Ref", "HashMatches") {
+			found = true
 		}
+	})
+	return found
+}
+
+// digestGuarded: commit point cp sits under HashMatches==true (for a commit in
+// a literal: every start of the literal does).
+func (x *c02Ctx) digestGuarded(t *c02Tree, cp c02Commit) bool {
+	if x.hashMatchTrue(t, cp.F, cp.In) {
+		return true
+	}
+	if cp.Fn != cp.F.fn && cp.Fn.Parent() == cp.F.fn {
+		anchors := c02LiteralAnchors(cp.Fn)
+		if len(anchors) == 0 {
+			return false
+		}
+		for _, a := range anchors {
+			if !x.hashMatchTrue(t, cp.F, a) {
+				return false
+			}
+		}
+		return true
 	}
 	return false
 }
@@ -1388,13 +2890,14 @@ func (x *c02Ctx) isReverifier(fn *ssa.Function) bool {
 	if st := x.reverify[fn]; st != 0 {
 		return st == 1
 	}
-	ok := x.comparesDigest(fn)
-	cps := x.commitPoints(fn)
+	t := x.tree(fn)
+	ok := x.comparesDigest(t)
+	cps := x.commitPoints(t, t.root)
 	if len(cps) == 0 {
 		ok = false
 	}
 	for _, cp := range cps {
-		if cp.Fn != fn || !x.hashMatchTrue(fn, cp.In.Block()) {
+		if !x.digestGuarded(t, cp) {
 			ok = false
 		}
 	}
@@ -1434,14 +2937,23 @@ func c02RuleCommit(x *c02Ctx) {
 			r.Undecided("R-commit", FuncKey(fn)+"#source", p.Pos(fn.Pos()), "cannot identify the io.Reader parameter")
 			continue
 		}
-		x.checkReceiver(fn, src, 0)
+		t := x.tree(fn)
+		if t.capped {
+			r.Note("effective body of %s capped at %d frames", FuncKey(fn), c02MaxFrames)
+		}
+		x.checkReceiver(t, t.root, src, map[*ssa.Function]bool{})
 		if x.isReverifier(fn) {
 			nrev++
 		}
 	}
-	for k := range c02CommitHelpers {
+	var keys []string
+	for k := range c02CommitCalls {
+		keys = append(keys, k)
+	}
+	sort.Strings(keys)
+	for _, k := range keys {
 		if !x.k5seen[k] {
-			r.Undecided("R-commit", "table#"+k, "", "commit-helper table entry matched no call in any ReceiveBlob implementation: the table is stale")
+			r.Undecided("R-commit", "table#"+k, "", "commit-call table entry matched no call in the effective body of any ReceiveBlob implementation: the table is stale")
 		}
 	}
 	r.Check(nrev >= 2, "R-commit", "reverifying-stores#count", "", fmt.Sprintf("%d stores compare the digest themselves and commit only under HashMatches==true", nrev),
@@ -1450,20 +2962,21 @@ func c02RuleCommit(x *c02Ctx) {
 	r.Floor("R-verdict", 33)
 }
 
-// checkReceiver applies R-commit/R-verdict to fn with src as the stream.
-func (x *c02Ctx) checkReceiver(fn *ssa.Function, src *ssa.Parameter, depth int) {
+// checkReceiver applies R-commit (and, for the root, R-verdict) to the subtree
+// of frame top with src (a parameter of top.fn) as the stream.
+func (x *c02Ctx) checkReceiver(t *c02Tree, top *c02Frame, src *ssa.Parameter, subDone map[*ssa.Function]bool) {
 	p, r := x.p, x.r
-	key := FuncKey(fn)
-	fl := x.flowOf(fn, src)
-	isCons := map[ssa.Instruction]*c02Consumer{}
+	key := FuncKey(top.fn)
+	fl := x.flowOf(t, top, src)
+	isCons := map[c02Loc]*c02Consumer{}
 	var verdicts []*c02Consumer // consumers whose success means the stream was read to its end
 	for i := range fl.consumers {
 		c := &fl.consumers[i]
-		isCons[c.C.Instr] = c
+		isCons[c02Loc{c.F, c.C.Instr}] = c
 		if c.C.Value() == nil {
 			continue
 		}
-		construct := key + "#consume:" + c.C.CalleeKey()
+		construct := FuncKey(TopFunc(c.C.Fn)) + "#consume:" + c.C.CalleeKey()
 		_, hasErr, disc := ErrValue(c.C.Value())
 		if !hasErr {
 			continue
@@ -1477,13 +2990,16 @@ func (x *c02Ctx) checkReceiver(fn *ssa.Function, src *ssa.Parameter, depth int) 
 			verdicts = append(verdicts, c)
 		}
 	}
-	dominatedBy := func(at ssa.Instruction, kinds string) (bool, string) {
+	dominatedBy := func(f *c02Frame, at ssa.Instruction, kinds string) (bool, string) {
 		why := "no call reads source to its end before this point"
 		for _, c := range verdicts {
 			if !strings.Contains(kinds, c.Kind) {
 				continue
 			}
-			ok, w := c02SuccDom(c.C.Value(), at)
+			if c.F == f && c.C.Instr == at {
+				continue
+			}
+			ok, w := t.succDom(c.F, c.C.Value(), f, at)
 			if ok {
 				return true, c.C.CalleeKey()
 			}
@@ -1491,49 +3007,49 @@ func (x *c02Ctx) checkReceiver(fn *ssa.Function, src *ssa.Parameter, depth int) 
 		}
 		return false, why
 	}
-	cps := x.commitPoints(fn)
-	digest := x.comparesDigest(fn)
+	cps := x.commitPoints(t, top)
+	digest := top == t.root && x.comparesDigest(t)
 	for _, cp := range cps {
 		construct := key + "#commit:" + cp.Name
 		site := p.Pos(cp.In.Pos())
-		if c := isCons[cp.In]; c != nil {
+		if c := isCons[c02Loc{cp.F, cp.In}]; c != nil {
 			r.OK("R-commit", construct, site, "the commit is the call that consumes source: a read error fails the commit itself")
 		} else {
-			ok, by := dominatedBy(cp.In, "full delegate")
+			ok, by := dominatedBy(cp.F, cp.In, "full delegate")
 			r.Check(ok, "R-commit", construct, site, "dominated by the err==nil edge of "+by,
 				"commit point reachable without a successful complete read of source ("+by+"): bytes that failed the digest or size check of blobserver.Receive could become visible")
 		}
 		if digest {
-			ok := cp.Fn == fn && x.hashMatchTrue(fn, cp.In.Block())
-			if !ok && cp.Fn != fn && cp.Fn.Parent() == fn {
-				ok = true
-				for _, a := range c02LiteralAnchors(cp.Fn) {
-					if !x.hashMatchTrue(fn, a.Block()) {
-						ok = false
-					}
-				}
-			}
-			r.Check(ok, "R-commit", construct+":digest", site, "this store compares the digest itself and commits only under HashMatches==true",
+			r.Check(x.digestGuarded(t, cp), "R-commit", construct+":digest", site, "this store compares the digest itself and commits only under HashMatches==true",
 				"this store calls HashMatches but this commit point is not under HashMatches==true")
 		}
-		// a commit helper that is handed the bytes as a reader is checked like a receiver (bound 1)
-		if cp.Kind == "helper" && depth == 0 {
-			if c, ok := cp.In.(ssa.CallInstruction); ok {
-				if callee := (CallSite{cp.Fn, c}).Callee(); callee != nil && InModule(callee) && callee.Blocks != nil {
-					if rp := x.readerParam(callee); rp != nil {
-						x.checkReceiver(callee, rp, depth+1)
-					}
-				}
-			}
+	}
+	// a helper that is handed bytes as a reader (not the stream followed above)
+	// and makes them visible is checked like a receiver of its own
+	byFrame := map[*c02Frame]bool{}
+	for _, cp := range cps {
+		for f := cp.F; f != nil && f != top; f = f.parent {
+			byFrame[f] = true
 		}
 	}
-	if depth > 0 {
+	for _, k := range t.under(top) {
+		if k == top || !byFrame[k] || subDone[k.fn] {
+			continue
+		}
+		rp := x.readerParam(k.fn)
+		if rp == nil || fl.tainted[c02LV{k, rp}] {
+			continue
+		}
+		subDone[k.fn] = true
+		x.checkReceiver(t, k, rp, subDone)
+	}
+	if top != t.root {
 		return
 	}
 	// R-verdict
-	nrs := MaybeNilErrorReturns(fn)
+	nrs := t.nilReturns(top, 0)
 	if len(nrs) == 0 {
-		r.OKTable("R-verdict", key+"#success-return", p.Pos(fn.Pos()), "never returns a nil error: every upload is refused")
+		r.OKTable("R-verdict", key+"#success-return", p.Pos(top.fn.Pos()), "never returns a nil error: every upload is refused")
 		return
 	}
 	type agg struct {
@@ -1556,13 +3072,13 @@ func (x *c02Ctx) checkReceiver(fn *ssa.Function, src *ssa.Parameter, depth int) 
 		}
 		for _, c := range verdicts {
 			ev, _, _ := ErrValue(c.C.Value())
-			if sameOrigin(val, ev) {
+			if c.F == nr.F && val != nil && sameOrigin(val, ev) {
 				ok, why = true, "returns the error of "+c.C.CalleeKey()
 				break
 			}
 		}
 		if !ok {
-			ok, why = dominatedBy(c02LastInstr(nr.From), "full delegate opaque")
+			ok, why = dominatedBy(nr.F, c02LastInstr(nr.From), "full delegate opaque")
 			if ok {
 				why = "dominated by the err==nil edge of " + why
 			}
@@ -1585,7 +3101,7 @@ func (x *c02Ctx) checkReceiver(fn *ssa.Function, src *ssa.Parameter, depth int) 
 	}
 	for _, ret := range order {
 		a := byRet[ret]
-		r.Check(a.ok, "R-verdict", key+"#success-return", p.Pos(ret.Pos()), a.why,
+		r.Check(a.ok, "R-verdict", FuncKey(ret.Parent())+"#success-return", p.Pos(ret.Pos()), a.why,
 			"may return a nil error without having read source successfully ("+a.why+"): blobserver.Receive then reports a blob as received whose bytes were never compared with the ref")
 	}
 }
@@ -1595,10 +3111,11 @@ func (x *c02Ctx) checkReceiver(fn *ssa.Function, src *ssa.Parameter, depth int) 
 
 // c02Root says where the bytes a reader / []byte / string value carries come from.
 type c02Root struct {
-	Kind string          // stream | buf | val | field | unknown
-	V    ssa.Value       // stream: the parameter; buf: the buffer object; val: the immutable value
-	Path string          // field: access path of the field address
-	At   ssa.Instruction // buf via Bytes()/String(): that call; field: the load
+	Kind string    // stream | buf | val | field | unknown
+	F    *c02Frame // frame of V / of the field load
+	V    ssa.Value // stream: the parameter; buf: the buffer object; val: the immutable value
+	Path string    // field: access path of the field address
+	At   c02Loc    // buf via Bytes()/String(): that call; field: the load
 }
 
 func (a c02Root) same(b c02Root) bool {
@@ -1606,9 +3123,9 @@ func (a c02Root) same(b c02Root) bool {
 		return false
 	}
 	if a.Kind == "field" {
-		return a.Path == b.Path && !strings.HasPrefix(a.Path, "?") && !strings.Contains(a.Path, "?")
+		return a.Path == b.Path && !strings.Contains(a.Path, "?")
 	}
-	return a.V == b.V
+	return a.F == b.F && a.V == b.V
 }
 
 func (a c02Root) String() string {
@@ -1632,135 +3149,159 @@ func c02BytesOrString(t types.Type) bool {
 	return false
 }
 
-// c02BufObj returns the *bytes.Buffer object (Alloc or producing call) v denotes, or nil.
-func c02BufObj(v ssa.Value) ssa.Value {
+// bufObj returns the *bytes.Buffer object (Alloc or producing call) v denotes.
+func (t *c02Tree) bufObj(f *c02Frame, v ssa.Value) (c02LV, bool) {
 	if v == nil {
-		return nil
+		return c02LV{}, false
 	}
-	o := c02Origin(v)
-	if o == nil || !c02IsBytesBufferPtr(o.Type()) {
-		return nil
+	lv := t.origin(f, v)
+	if lv.V == nil || !c02IsBytesBufferPtr(lv.V.Type()) {
+		return c02LV{}, false
 	}
-	switch o.(type) {
+	switch lv.V.(type) {
 	case *ssa.Alloc, *ssa.Call:
-		return o
+		return lv, true
 	}
-	return nil
+	return c02LV{}, false
 }
 
-func (x *c02Ctx) carrier(v ssa.Value, depth int) c02Root {
+// fieldPath renders the address of a field for comparison across the frames of a tree.
+func (t *c02Tree) fieldPath(f *c02Frame, fa *ssa.FieldAddr) string {
+	if f == t.root {
+		return AccessPath(fa)
+	}
+	if rp := t.recvPath(f, fa); rp != "" {
+		return "&" + t.root.fn.Params[0].Name() + "." + rp
+	}
+	return "?"
+}
+
+func (x *c02Ctx) carrier(t *c02Tree, f *c02Frame, v ssa.Value, depth int) c02Root {
 	unknown := c02Root{Kind: "unknown"}
 	if depth > 12 || v == nil {
 		return unknown
 	}
-	v = c02Origin(v)
-	if b := c02BufObj(v); b != nil {
-		return c02Root{Kind: "buf", V: b}
-	}
-	switch t := v.(type) {
-	case *ssa.Parameter:
-		if c02BytesOrString(t.Type()) {
-			return c02Root{Kind: "val", V: t}
+	lv := t.origin(f, v)
+	r := x.carrierAt(t, lv, depth)
+	if r.Kind == "unknown" || r.Kind == "field" {
+		// the value a helper call returns is itself an immutable snapshot
+		if sv := t.originX(f, v, false); sv != lv {
+			if r2 := x.carrierAt(t, sv, depth); r2.Kind == "val" {
+				return r2
+			}
 		}
-		if x.isReaderType(t.Type()) {
-			return c02Root{Kind: "stream", V: t}
+	}
+	return r
+}
+
+func (x *c02Ctx) carrierAt(t *c02Tree, lv c02LV, depth int) c02Root {
+	unknown := c02Root{Kind: "unknown"}
+	f, v := lv.F, lv.V
+	if b, ok := t.bufObj(f, v); ok {
+		return c02Root{Kind: "buf", F: b.F, V: b.V}
+	}
+	switch tv := v.(type) {
+	case *ssa.Parameter:
+		if c02BytesOrString(tv.Type()) {
+			return c02Root{Kind: "val", F: f, V: tv}
+		}
+		if x.isReaderType(tv.Type()) {
+			return c02Root{Kind: "stream", F: f, V: tv}
 		}
 	case *ssa.Convert:
-		if c02BytesOrString(t.Type()) && c02BytesOrString(t.X.Type()) {
-			return x.carrier(t.X, depth+1)
+		if c02BytesOrString(tv.Type()) && c02BytesOrString(tv.X.Type()) {
+			return x.carrier(t, f, tv.X, depth+1)
 		}
 	case *ssa.Call:
-		c := CallSite{t.Parent(), t}
+		c := CallSite{tv.Parent(), tv}
 		as := c.Args()
 		switch {
 		case c.IsStatic("strings", "", "NewReader"), c.IsStatic("bytes", "", "NewReader"), c.IsStatic("bytes", "", "NewBuffer"),
 			c.IsStatic("bytes", "", "NewBufferString"), c.IsStatic("io", "", "TeeReader"), c.IsStatic("io", "", "NopCloser"):
-			return x.carrier(as[0], depth+1)
+			return x.carrier(t, f, as[0], depth+1)
 		case c.IsStatic("bytes", "Buffer", "String"):
-			return c02Root{Kind: "val", V: t} // an immutable snapshot
+			return c02Root{Kind: "val", F: f, V: tv} // an immutable snapshot
 		case c.IsStatic("bytes", "Buffer", "Bytes"):
-			if b := c02BufObj(as[0]); b != nil {
-				return c02Root{Kind: "buf", V: b, At: t}
+			if b, ok := t.bufObj(f, as[0]); ok {
+				return c02Root{Kind: "buf", F: b.F, V: b.V, At: c02Loc{f, tv}}
 			}
 			return unknown
 		}
-		if c02BytesOrString(t.Type()) {
-			return c02Root{Kind: "val", V: t}
+		if c02BytesOrString(tv.Type()) {
+			return c02Root{Kind: "val", F: f, V: tv}
 		}
 	case *ssa.UnOp:
-		if t.Op == token.MUL {
-			if fa, ok := t.X.(*ssa.FieldAddr); ok && c02BytesOrString(t.Type()) {
-				return c02Root{Kind: "field", Path: AccessPath(fa), At: t}
+		if tv.Op == token.MUL {
+			if fa, ok := tv.X.(*ssa.FieldAddr); ok && c02BytesOrString(tv.Type()) {
+				return c02Root{Kind: "field", F: f, Path: t.fieldPath(f, fa), At: c02Loc{f, tv}}
 			}
 		}
 	case *ssa.Extract, *ssa.MakeSlice, *ssa.Const:
 		if c02BytesOrString(v.Type()) {
-			return c02Root{Kind: "val", V: v}
+			return c02Root{Kind: "val", F: f, V: v}
 		}
 	}
 	return unknown
 }
 
 type c02BufOp struct {
+	F       *c02Frame
 	In      ssa.Instruction
 	Kind    string // ro | reset | fill | mut
 	Src     ssa.Value
-	CoSinks []ssa.Value
+	CoSinks []c02LV
 }
 
-// c02Sinks: the writers a value written to reaches (through io.MultiWriter).
-func c02Sinks(w ssa.Value) []ssa.Value {
-	o := c02Origin(w)
-	if c, ok := c02AsCall(o); ok && c.IsStatic("io", "", "MultiWriter") {
-		var out []ssa.Value
+// sinks: the writers a value written to reaches (through io.MultiWriter).
+func (t *c02Tree) sinks(f *c02Frame, w ssa.Value) []c02LV {
+	o := t.origin(f, w)
+	if c, ok := c02AsCall(o.V); ok && c.IsStatic("io", "", "MultiWriter") {
+		var out []c02LV
 		for _, e := range c02ArgsExpanded(c) {
-			out = append(out, c02Sinks(e)...)
+			out = append(out, t.sinks(o.F, e)...)
 		}
 		return out
 	}
-	return []ssa.Value{o}
+	return []c02LV{o}
 }
 
-// c02TeeSinks: the writers that see every byte read through reader r.
-func c02TeeSinks(r ssa.Value) []ssa.Value {
-	var out []ssa.Value
+// teeSinks: the writers that see every byte read through reader r.
+func (t *c02Tree) teeSinks(f *c02Frame, r ssa.Value) []c02LV {
+	var out []c02LV
 	for i := 0; i < 8; i++ {
-		c, ok := c02AsCall(c02Origin(r))
+		o := t.origin(f, r)
+		c, ok := c02AsCall(o.V)
 		if !ok || !c.IsStatic("io", "", "TeeReader") {
 			break
 		}
-		out = append(out, c02Sinks(c.Args()[1])...)
-		r = c.Args()[0]
+		out = append(out, t.sinks(o.F, c.Args()[1])...)
+		f, r = o.F, c.Args()[0]
 	}
 	return out
 }
 
-// bufOps lists every operation of top (literals included) on buffer object B.
-func (x *c02Ctx) bufOps(top *ssa.Function, B ssa.Value) []c02BufOp {
+// bufOps lists every operation of the effective body on buffer object B.
+func (x *c02Ctx) bufOps(t *c02Tree, B c02LV) []c02BufOp {
 	var ops []c02BufOp
-	is := func(v ssa.Value) bool { return v != nil && c02IsBytesBufferPtr(v.Type()) && c02BufObj(v) == B }
-	isAny := func(v ssa.Value) bool { // B itself or B behind an interface
-		if v == nil {
-			return false
+	t.each(func(fr *c02Frame, f *ssa.Function, in ssa.Instruction) {
+		isAny := func(v ssa.Value) bool { // B itself or B behind an interface
+			if v == nil {
+				return false
+			}
+			b, ok := t.bufObj(fr, v)
+			return ok && b == B
 		}
-		if is(v) {
-			return true
-		}
-		o := c02Origin(v)
-		return o != nil && c02IsBytesBufferPtr(o.Type()) && c02BufObj(o) == B
-	}
-	c02AllInstrs(top, func(f *ssa.Function, in ssa.Instruction) {
-		switch t := in.(type) {
+		switch tv := in.(type) {
 		case ssa.CallInstruction:
-			c := CallSite{f, t}
+			c := CallSite{f, tv}
 			if c.IsDefer() {
 				return
 			}
 			as := c.Args()
 			if c.IsStatic("io", "", "Copy") || c.IsStatic("io", "", "CopyBuffer") {
-				var co []ssa.Value
+				var co []c02LV
 				hit := false
-				for _, sk := range c02Sinks(as[0]) {
+				for _, sk := range t.sinks(fr, as[0]) {
 					if sk == B {
 						hit = true
 					} else {
@@ -1768,7 +3309,7 @@ func (x *c02Ctx) bufOps(top *ssa.Function, B ssa.Value) []c02BufOp {
 					}
 				}
 				if hit {
-					ops = append(ops, c02BufOp{in, "fill", as[1], co})
+					ops = append(ops, c02BufOp{fr, in, "fill", as[1], co})
 					return
 				}
 			}
@@ -1784,86 +3325,122 @@ func (x *c02Ctx) bufOps(top *ssa.Function, B ssa.Value) []c02BufOp {
 			if !hit {
 				return
 			}
-			if f := c.Callee(); f != nil && f.Signature.Recv() != nil && funcIs(f, "bytes", "Buffer", f.Name()) && isAny(as[0]) {
-				switch f.Name() {
+			if fr.kidOf(in) != nil {
+				return // a helper of the effective body: what it does with its parameter is listed from its own frame
+			}
+			if cf := c.Callee(); cf != nil && cf.Signature.Recv() != nil && funcIs(cf, "bytes", "Buffer", cf.Name()) && isAny(as[0]) {
+				switch cf.Name() {
 				case "Bytes", "String", "Len", "Cap", "Available":
-					ops = append(ops, c02BufOp{In: in, Kind: "ro"})
+					ops = append(ops, c02BufOp{F: fr, In: in, Kind: "ro"})
 				case "Reset":
-					ops = append(ops, c02BufOp{In: in, Kind: "reset"})
+					ops = append(ops, c02BufOp{F: fr, In: in, Kind: "reset"})
 				case "ReadFrom":
-					ops = append(ops, c02BufOp{In: in, Kind: "fill", Src: as[1]})
+					ops = append(ops, c02BufOp{F: fr, In: in, Kind: "fill", Src: as[1]})
 				default:
-					ops = append(ops, c02BufOp{In: in, Kind: "mut"})
+					ops = append(ops, c02BufOp{F: fr, In: in, Kind: "mut"})
 				}
 				return
 			}
-			ops = append(ops, c02BufOp{In: in, Kind: "mut"})
+			ops = append(ops, c02BufOp{F: fr, In: in, Kind: "mut"})
 		case *ssa.Store:
-			if isAny(t.Val) {
-				if al, ok := t.Addr.(*ssa.Alloc); ok && plainVariable(al) {
+			if isAny(tv.Val) {
+				if al, ok := tv.Addr.(*ssa.Alloc); ok && plainVariable(al) {
 					return
 				}
-				if ia, ok := t.Addr.(*ssa.IndexAddr); ok {
+				if ia, ok := tv.Addr.(*ssa.IndexAddr); ok {
 					if al, ok := ia.X.(*ssa.Alloc); ok && al.Comment == "varargs" {
 						return
 					}
 				}
-				ops = append(ops, c02BufOp{In: in, Kind: "mut"})
+				ops = append(ops, c02BufOp{F: fr, In: in, Kind: "mut"})
 			}
 		case *ssa.Return:
-			for _, rv := range t.Results {
+			if fr.parent != nil && f == fr.fn {
+				return // handed back to the caller of the helper: followed there
+			}
+			for _, rv := range tv.Results {
 				if isAny(rv) {
-					ops = append(ops, c02BufOp{In: in, Kind: "mut"})
+					ops = append(ops, c02BufOp{F: fr, In: in, Kind: "mut"})
 				}
 			}
 		case *ssa.Send:
-			if isAny(t.X) {
-				ops = append(ops, c02BufOp{In: in, Kind: "mut"})
+			if isAny(tv.X) {
+				ops = append(ops, c02BufOp{F: fr, In: in, Kind: "mut"})
 			}
 		case *ssa.MapUpdate:
-			if isAny(t.Value) {
-				ops = append(ops, c02BufOp{In: in, Kind: "mut"})
+			if isAny(tv.Value) {
+				ops = append(ops, c02BufOp{F: fr, In: in, Kind: "mut"})
 			}
 		}
 	})
 	return ops
 }
 
-// changedBetween: may buffer content change after instruction a and before site s?
-func (x *c02Ctx) changedBetween(a, s ssa.Instruction, ops []c02BufOp) (bool, string) {
-	fa, fs := a.Parent(), s.Parent()
+// c02BetweenLocal: may o execute after a and before s (instructions of one
+// function and its directly nested literals)?
+func c02BetweenLocal(a, o, s ssa.Instruction) bool {
+	fa, fs, fo := a.Parent(), s.Parent(), o.Parent()
+	switch {
+	case fa == fs && fo == fa:
+		return c02ReachesAvoiding(a, o, a) && c02ReachesAvoiding(o, s, a)
+	case fa != fs && fs.Parent() == fa && fo == fa:
+		for _, k := range c02LiteralAnchors(fs) {
+			if c02Reaches(a, o) && (o == k || c02Reaches(o, k)) {
+				return true
+			}
+		}
+		return false
+	case fa != fs && fs.Parent() == fa && fo == fs:
+		return c02Reaches(o, s)
+	}
+	return true
+}
+
+// between: may instruction o execute after a and before s (any frames)?
+func (t *c02Tree) between(a, o, s c02Loc) bool {
+	l := c02LCA(c02LCA(a.F, o.F), s.F)
+	aa, oa, sa := c02LiftTo(a.F, a.In, l), c02LiftTo(o.F, o.In, l), c02LiftTo(s.F, s.In, l)
+	switch {
+	case oa == aa && oa == sa:
+		return true
+	case oa == aa:
+		m := c02LCA(a.F, o.F)
+		a2, o2 := c02LiftTo(a.F, a.In, m), c02LiftTo(o.F, o.In, m)
+		if a2 == o2 || a2.Parent() != o2.Parent() {
+			return true
+		}
+		return c02ReachesAvoiding(a2, o2, a2)
+	case oa == sa:
+		m := c02LCA(o.F, s.F)
+		o2, s2 := c02LiftTo(o.F, o.In, m), c02LiftTo(s.F, s.In, m)
+		if o2 == s2 || o2.Parent() != s2.Parent() {
+			return true
+		}
+		return c02Reaches(o2, s2)
+	case aa == sa:
+		// a and s inside one call, o outside of it: only through a loop around the call
+		return c02Reaches(aa, oa) && c02Reaches(oa, aa) && aa.Parent() == oa.Parent()
+	}
+	return c02BetweenLocal(aa, oa, sa)
+}
+
+// changedBetween: may buffer content change after a and before s?
+func (x *c02Ctx) changedBetween(t *c02Tree, a, s c02Loc, ops []c02BufOp) (bool, string) {
 	for _, op := range ops {
-		if op.Kind == "ro" || op.In == a || op.In == s {
+		if op.Kind == "ro" || op.F == a.F && op.In == a.In || op.F == s.F && op.In == s.In {
 			continue
 		}
-		fo := op.In.Parent()
-		line := x.p.Fset.Position(op.In.Pos()).Line
-		switch {
-		case fa == fs && fo == fa:
-			if c02ReachesAvoiding(a, op.In, a) && c02ReachesAvoiding(op.In, s, a) {
-				return true, fmt.Sprintf("buffer is written or drained at line %d between", line)
-			}
-		case fa != fs && fs.Parent() == fa && fo == fa:
-			for _, k := range c02LiteralAnchors(fs) {
-				if c02Reaches(a, op.In) && (op.In == k || c02Reaches(op.In, k)) {
-					return true, fmt.Sprintf("buffer is written or drained at line %d before the literal starts", line)
-				}
-			}
-		case fa != fs && fs.Parent() == fa && fo == fs:
-			if c02Reaches(op.In, s) {
-				return true, fmt.Sprintf("buffer is written or drained at line %d inside the literal before the call", line)
-			}
-		default:
-			return true, fmt.Sprintf("buffer is also written or drained in %s (line %d), order unknown", FuncKey(fo), line)
+		if t.between(a, c02Loc{op.F, op.In}, s) {
+			return true, fmt.Sprintf("buffer may be written or drained at line %d (%s) between", x.p.Fset.Position(op.In.Pos()).Line, FuncKey(op.In.Parent()))
 		}
 	}
 	return false, ""
 }
 
 // filledOnceFrom: B holds, at site, exactly the bytes of one successful,
-// complete read F (returned) whose source satisfies srcOK.
-func (x *c02Ctx) filledOnceFrom(top *ssa.Function, B ssa.Value, site ssa.Instruction, srcOK func(src ssa.Value, fill *ssa.Call) bool) (*c02BufOp, string) {
-	ops := x.bufOps(top, B)
+// complete read (returned) whose source satisfies srcOK.
+func (x *c02Ctx) filledOnceFrom(t *c02Tree, B c02LV, site c02Loc, srcOK func(f *c02Frame, src ssa.Value, fill c02Loc) bool) (*c02BufOp, string) {
+	ops := x.bufOps(t, B)
 	why := "no complete read fills the buffer"
 	for i := range ops {
 		op := &ops[i]
@@ -1874,34 +3451,58 @@ func (x *c02Ctx) filledOnceFrom(top *ssa.Function, B ssa.Value, site ssa.Instruc
 		if !ok {
 			continue
 		}
-		if !srcOK(op.Src, fc) {
+		fill := c02Loc{op.F, fc}
+		if !srcOK(op.F, op.Src, fill) {
 			why = "the buffer is filled from something else"
 			continue
 		}
-		if ok, w := c02SuccDom(fc, site); !ok {
+		if ok, w := t.succDom(op.F, fc, site.F, site.In); !ok {
 			why = "the read that fills the buffer: " + w
 			continue
 		}
-		if ch, w := x.changedBetween(fc, site, ops); ch {
+		if ch, w := x.changedBetween(t, fill, site, ops); ch {
 			why = w
 			continue
 		}
 		// nothing in the buffer before the fill
 		dirty := ""
-		def, _ := B.(ssa.Instruction)
-		loopCarried := def != nil && inLoop(fc.Block()) && !(def.Parent() == fc.Parent() && c02Reaches(fc, def))
+		loopCarried := false
+		if def, _ := B.V.(ssa.Instruction); def != nil {
+			l := c02LCA(op.F, B.F)
+			cur, f := ssa.Instruction(fc), op.F
+			for {
+				if inLoop(cur.Block()) {
+					recreated := false
+					if dh := c02LiftTo(B.F, def, f); dh != nil && dh.Parent() == cur.Parent() && c02Reaches(cur, dh) {
+						recreated = true
+					}
+					if !recreated {
+						loopCarried = true
+					}
+				}
+				if f == l {
+					break
+				}
+				cur, f = f.site, f.parent
+			}
+		}
 		resetOK := !loopCarried
 		for _, o2 := range ops {
-			if o2.In == op.In || o2.In.Parent() != fc.Parent() {
+			if o2.F == op.F && o2.In == op.In {
+				continue
+			}
+			l := c02LCA(o2.F, op.F)
+			oa, fa := c02LiftTo(o2.F, o2.In, l), c02LiftTo(op.F, fc, l)
+			if oa == fa || oa.Parent() != fa.Parent() {
 				continue
 			}
 			switch o2.Kind {
 			case "fill", "mut":
-				if c02Reaches(o2.In, fc) && !loopCarried {
+				if c02Reaches(oa, fa) && !loopCarried {
 					dirty = fmt.Sprintf("buffer already written at line %d before it is filled", x.p.Fset.Position(o2.In.Pos()).Line)
 				}
 			case "reset":
-				if Precedes(o2.In, fc) && c02Reaches(fc, o2.In) {
+				if t.prec(o2.F, o2.In, op.F, fc) && t.mayFollow(op.F, fc, o2.F, o2.In) {
 					resetOK = true
 				}
 			}
@@ -1912,8 +3513,8 @@ func (x *c02Ctx) filledOnceFrom(top *ssa.Function, B ssa.Value, site ssa.Instruc
 		if loopCarried && resetOK {
 			// between the Reset and the fill nothing else may write
 			for _, o2 := range ops {
-				if o2.Kind == "reset" && Precedes(o2.In, fc) {
-					if ch, w := x.changedBetween(o2.In, fc, ops); ch {
+				if o2.Kind == "reset" && t.prec(o2.F, o2.In, op.F, fc) {
+					if ch, w := x.changedBetween(t, c02Loc{o2.F, o2.In}, fill, ops); ch {
 						dirty = w
 					}
 				}
@@ -1930,9 +3531,9 @@ func (x *c02Ctx) filledOnceFrom(top *ssa.Function, B ssa.Value, site ssa.Instruc
 
 // refOrigin resolves a ref value to the call that computed it, also through a
 // struct field stored once earlier in the same function.
-func (x *c02Ctx) refOrigin(v ssa.Value) ssa.Value {
-	o := c02Origin(v)
-	ld, ok := o.(*ssa.UnOp)
+func (x *c02Ctx) refOrigin(t *c02Tree, f *c02Frame, v ssa.Value) c02LV {
+	o := t.origin(f, v)
+	ld, ok := o.V.(*ssa.UnOp)
 	if !ok || ld.Op != token.MUL {
 		return o
 	}
@@ -1957,49 +3558,52 @@ func (x *c02Ctx) refOrigin(v ssa.Value) ssa.Value {
 		}
 	}
 	if n == 1 && Precedes(found, ld) {
-		return c02Origin(found.Val)
+		return t.origin(o.F, found.Val)
 	}
 	return o
 }
 
-func (x *c02Ctx) fieldStoredBetween(path string, a, s ssa.Instruction) bool {
-	if a.Parent() != s.Parent() {
-		return true
-	}
-	for _, b := range a.Parent().Blocks {
-		for _, in := range b.Instrs {
-			if st, ok := in.(*ssa.Store); ok {
-				if fa, ok := st.Addr.(*ssa.FieldAddr); ok && AccessPath(fa) == path && c02Reaches(a, st) && c02Reaches(st, s) {
-					return true
-				}
-			}
+func (x *c02Ctx) fieldStoredBetween(t *c02Tree, path string, a, s c02Loc) bool {
+	hit := false
+	t.each(func(fr *c02Frame, f *ssa.Function, in ssa.Instruction) {
+		st, ok := in.(*ssa.Store)
+		if !ok || hit {
+			return
 		}
-	}
-	return false
+		fa, ok := st.Addr.(*ssa.FieldAddr)
+		if !ok || t.fieldPath(fr, fa) != path {
+			return
+		}
+		if t.between(a, c02Loc{fr, st}, s) {
+			hit = true
+		}
+	})
+	return hit
 }
 
 // sameBytes: ref was computed by blob.RefFromBytes/RefFromString from the very
 // bytes that data carries at site.
-func (x *c02Ctx) sameBytes(top *ssa.Function, ref, data ssa.Value, site ssa.Instruction) (bool, string) {
-	rc, ok := c02AsCall(x.refOrigin(ref))
+func (x *c02Ctx) sameBytes(t *c02Tree, fr *c02Frame, ref ssa.Value, fd *c02Frame, data ssa.Value, site c02Loc) (bool, string) {
+	ro := x.refOrigin(t, fr, ref)
+	rc, ok := c02AsCall(ro.V)
 	if !ok || !(rc.IsStatic(c02BlobPath, "", "RefFromBytes") || rc.IsStatic(c02BlobPath, "", "RefFromString")) {
-		return false, "the ref is not computed by blob.RefFromBytes/RefFromString in this function"
+		return false, "the ref is not computed by blob.RefFromBytes/RefFromString in the effective body of this function"
 	}
-	ra, rb := x.carrier(rc.Args()[0], 0), x.carrier(data, 0)
+	ra, rb := x.carrier(t, ro.F, rc.Args()[0], 0), x.carrier(t, fd, data, 0)
 	if !ra.same(rb) {
 		return false, fmt.Sprintf("the ref is the digest of %s but the bytes passed come from %s", ra, rb)
 	}
 	switch ra.Kind {
 	case "buf":
 		from := ra.At
-		if from == nil {
-			from = rc.Instr
+		if from.In == nil {
+			from = c02Loc{ro.F, rc.Instr}
 		}
-		if ch, w := x.changedBetween(from, site, x.bufOps(top, ra.V)); ch {
+		if ch, w := x.changedBetween(t, from, site, x.bufOps(t, c02LV{ra.F, ra.V})); ch {
 			return false, "between the digest and the call: " + w
 		}
 	case "field":
-		if x.fieldStoredBetween(ra.Path, ra.At, site) {
+		if x.fieldStoredBetween(t, ra.Path, ra.At, site) {
 			return false, "the field is assigned between the digest and the call"
 		}
 	case "stream":
@@ -2008,11 +3612,11 @@ func (x *c02Ctx) sameBytes(top *ssa.Function, ref, data ssa.Value, site ssa.Inst
 	return true, "ref = " + rc.Callee().Name() + " of the same " + ra.Kind
 }
 
-func (x *c02Ctx) dstReverifies(c CallSite, dst ssa.Value) (bool, string) {
-	if f := c.Callee(); f != nil && x.isReceiveBlobImpl(f) && x.isReverifier(f) {
-		return true, FuncKey(f)
+func (x *c02Ctx) dstReverifies(t *c02Tree, f *c02Frame, c CallSite, dst ssa.Value) (bool, string) {
+	if cf := c.Callee(); cf != nil && x.isReceiveBlobImpl(cf) && x.isReverifier(cf) {
+		return true, FuncKey(cf)
 	}
-	o := c02Origin(dst)
+	o := t.origin(f, dst).V
 	if o == nil {
 		return false, ""
 	}
@@ -2023,39 +3627,45 @@ func (x *c02Ctx) dstReverifies(c CallSite, dst ssa.Value) (bool, string) {
 	if _, isIface := n.Underlying().(*types.Interface); isIface {
 		return false, ""
 	}
-	f, _ := x.p.MethodOf(n, "ReceiveBlob")
-	if f != nil && f.Synthetic == "" && x.isReverifier(f) {
-		return true, FuncKey(f)
+	mf, _ := x.p.MethodOf(n, "ReceiveBlob")
+	if mf != nil && mf.Synthetic == "" && x.isReverifier(mf) {
+		return true, FuncKey(mf)
 	}
 	return false, ""
 }
 
-// classify returns the acceptance idiom of one unverified hand-over (dst, ref, data) at site c.
-func (x *c02Ctx) classify(c CallSite, dst, ref, rd ssa.Value, allowForward bool) (idiom, detail string, ok bool) {
-	top := TopFunc(c.Fn)
+// classify returns the acceptance idiom of one unverified hand-over (dst, ref,
+// data) at call c of frame f, judged in the effective body of t's root.
+func (x *c02Ctx) classify(t *c02Tree, f *c02Frame, c CallSite, dst, ref, rd ssa.Value, allowForward bool) (idiom, detail string, ok bool) {
+	top := t.root.fn
+	site := c02Loc{f, c.Instr}
 	var reasons []string
+	line := func(in ssa.Instruction) int { return x.p.Fset.Position(in.Pos()).Line }
 	// (ii) delegation
 	if x.isReceiveBlobImpl(top) {
 		refP := c02ParamOfType(top, c02IsBlobRef)
 		srcP := x.readerParam(top)
-		if refP != nil && srcP != nil && c02Origin(ref) == ssa.Value(refP) {
-			root := x.carrier(rd, 0)
-			isSrc := func(v ssa.Value) bool { r := x.carrier(v, 0); return r.Kind == "stream" && r.V == ssa.Value(srcP) }
+		if refP != nil && srcP != nil && t.origin(f, ref) == (c02LV{t.root, refP}) {
+			root := x.carrier(t, f, rd, 0)
+			isSrc := func(sf *c02Frame, v ssa.Value) bool {
+				r := x.carrier(t, sf, v, 0)
+				return r.Kind == "stream" && r.F == t.root && r.V == ssa.Value(srcP)
+			}
 			switch root.Kind {
 			case "stream":
-				if root.V == ssa.Value(srcP) {
+				if root.F == t.root && root.V == ssa.Value(srcP) {
 					return "delegation", "a ReceiveBlob method passes on its own ref and its own source stream", true
 				}
 			case "buf":
-				op, why := x.filledOnceFrom(top, root.V, c.Instr, func(s ssa.Value, _ *ssa.Call) bool { return isSrc(s) })
+				op, why := x.filledOnceFrom(t, c02LV{root.F, root.V}, site, func(sf *c02Frame, s ssa.Value, _ c02Loc) bool { return isSrc(sf, s) })
 				if op != nil {
-					return "delegation", fmt.Sprintf("a ReceiveBlob method passes on its own ref and a buffer filled by one checked complete read of its source (line %d), untouched since", x.p.Fset.Position(op.In.Pos()).Line), true
+					return "delegation", fmt.Sprintf("a ReceiveBlob method passes on its own ref and a buffer filled by one checked complete read of its source (line %d), untouched since", line(op.In)), true
 				}
 				reasons = append(reasons, "delegation: "+why)
 			case "val":
 				if ex, isEx := root.V.(*ssa.Extract); isEx && ex.Index == 0 {
-					if rc, isCall := c02AsCall(ex.Tuple); isCall && (rc.IsStatic("io", "", "ReadAll") || rc.IsStatic("io/ioutil", "", "ReadAll")) && isSrc(rc.Args()[0]) {
-						if ok, w := c02SuccDom(rc.Value(), c.Instr); ok {
+					if rc, isCall := c02AsCall(ex.Tuple); isCall && (rc.IsStatic("io", "", "ReadAll") || rc.IsStatic("io/ioutil", "", "ReadAll")) && isSrc(root.F, rc.Args()[0]) {
+						if ok, w := t.succDom(root.F, rc.Value(), f, c.Instr); ok {
 							return "delegation", "a ReceiveBlob method passes on its own ref and the bytes of a checked io.ReadAll of its source", true
 						} else {
 							reasons = append(reasons, "delegation: "+w)
@@ -2070,18 +3680,19 @@ func (x *c02Ctx) classify(c CallSite, dst, ref, rd ssa.Value, allowForward bool)
 		}
 	}
 	// (iii) ref computed from the same bytes
-	if ok, why := x.sameBytes(top, ref, rd, c.Instr); ok {
+	if ok, why := x.sameBytes(t, f, ref, f, rd, site); ok {
 		return "ref-of-same-bytes", why, true
 	} else {
 		reasons = append(reasons, "ref-of-same-bytes: "+why)
 	}
-	root := x.carrier(rd, 0)
+	root := x.carrier(t, f, rd, 0)
 	// (v) bytes hashed while read, HashMatches(ref)==true dominates
-	if k, v, hc := BoolCallFact(c.Block(), func(h CallSite) bool {
-		return h.IsStatic(c02BlobPath, "Ref", "HashMatches") && sameOrigin(h.Args()[0], ref)
+	if k, v, hl := c02BoolCallFactE(t.facts(f, c.Block()), func(hf *c02Frame, h CallSite) bool {
+		return h.IsStatic(c02BlobPath, "Ref", "HashMatches") && t.same(hf, h.Args()[0], f, ref)
 	}); k && v {
-		hObj := c02Origin(hc.Args()[1])
-		fed := func(list []ssa.Value) bool {
+		hc := hl.In.(*ssa.Call)
+		hObj := t.origin(hl.F, hc.Call.Args[1])
+		fed := func(list []c02LV) bool {
 			for _, s := range list {
 				if s == hObj {
 					return true
@@ -2091,16 +3702,25 @@ func (x *c02Ctx) classify(c CallSite, dst, ref, rd ssa.Value, allowForward bool)
 		}
 		switch root.Kind {
 		case "val":
-			for _, fc := range CallsIn(c.Fn, false) {
-				if fc.IsStatic("io", "", "ReadFull") && fc.Value() != nil && c02Origin(fc.Args()[1]) == root.V && fed(c02TeeSinks(fc.Args()[0])) {
-					if ok, _ := c02SuccDom(fc.Value(), c.Instr); ok && Precedes(fc.Instr, hc.Instr) {
-						return "hash-verified-buffer", "the bytes were hashed while they were read (io.ReadFull through a TeeReader into the hash) and HashMatches(ref)==true dominates the call", true
+			done := false
+			t.each(func(fr *c02Frame, pf *ssa.Function, in ssa.Instruction) {
+				fcv, isCall := in.(*ssa.Call)
+				if !isCall || done {
+					return
+				}
+				fc := CallSite{pf, fcv}
+				if fc.IsStatic("io", "", "ReadFull") && t.origin(fr, fc.Args()[1]) == (c02LV{root.F, root.V}) && fed(t.teeSinks(fr, fc.Args()[0])) {
+					if ok, _ := t.succDom(fr, fcv, f, c.Instr); ok && t.prec(fr, fcv, hl.F, hc) {
+						done = true
 					}
 				}
+			})
+			if done {
+				return "hash-verified-buffer", "the bytes were hashed while they were read (io.ReadFull through a TeeReader into the hash) and HashMatches(ref)==true dominates the call", true
 			}
 		case "buf":
-			op, _ := x.filledOnceFrom(top, root.V, c.Instr, func(s ssa.Value, fc *ssa.Call) bool { return true })
-			if op != nil && (fed(op.CoSinks) || fed(c02TeeSinks(op.Src))) && Precedes(op.In, hc.Instr) {
+			op, _ := x.filledOnceFrom(t, c02LV{root.F, root.V}, site, func(*c02Frame, ssa.Value, c02Loc) bool { return true })
+			if op != nil && (fed(op.CoSinks) || fed(t.teeSinks(op.F, op.Src))) && t.prec(op.F, op.In, hl.F, hc) {
 				return "hash-verified-buffer", "the buffer was filled together with the hash and HashMatches(ref)==true dominates the call", true
 			}
 		}
@@ -2108,16 +3728,17 @@ func (x *c02Ctx) classify(c CallSite, dst, ref, rd ssa.Value, allowForward bool)
 	}
 	// (iv) re-population from a checked Fetch of the same ref
 	if root.Kind == "buf" {
-		op, why := x.filledOnceFrom(top, root.V, c.Instr, func(s ssa.Value, fill *ssa.Call) bool {
-			ex, ok := c02Origin(s).(*ssa.Extract)
+		op, why := x.filledOnceFrom(t, c02LV{root.F, root.V}, site, func(sf *c02Frame, s ssa.Value, fill c02Loc) bool {
+			sv := t.origin(sf, s)
+			ex, ok := sv.V.(*ssa.Extract)
 			if !ok || ex.Index != 0 {
 				return false
 			}
 			fc, ok := c02AsCall(ex.Tuple)
-			if !ok || !fc.IsMethod("Fetch", x.fetcher) || !sameOrigin(fc.Args()[len(fc.Args())-1], ref) {
+			if !ok || !fc.IsMethod("Fetch", x.fetcher) || !t.same(sv.F, fc.Args()[len(fc.Args())-1], f, ref) {
 				return false
 			}
-			ok2, _ := c02SuccessDominates(fc.Value(), fill)
+			ok2, _ := t.succDom(sv.F, fc.Value(), fill.F, fill.In)
 			return ok2
 		})
 		if op != nil {
@@ -2126,12 +3747,12 @@ func (x *c02Ctx) classify(c CallSite, dst, ref, rd ssa.Value, allowForward bool)
 		reasons = append(reasons, "refetch: "+why)
 	}
 	// (vii) destination re-verifies
-	if ok, who := x.dstReverifies(c, dst); ok {
+	if ok, who := x.dstReverifies(t, f, c, dst); ok {
 		return "reverifying-destination", "the destination's static type re-verifies the digest itself (" + who + ", see R-commit)", true
 	}
 	// (vi) forwarding helper
-	if allowForward && c.Fn.Parent() == nil {
-		if rp, ok := c02Origin(ref).(*ssa.Parameter); ok && rp.Parent() == c.Fn && root.Kind == "val" {
+	if allowForward && f == t.root && c.Fn.Parent() == nil {
+		if rp, ok := t.origin(f, ref).V.(*ssa.Parameter); ok && rp.Parent() == c.Fn && root.Kind == "val" && root.F == t.root {
 			if dp, ok := root.V.(*ssa.Parameter); ok && dp.Parent() == c.Fn {
 				return "forwarding-helper", fmt.Sprintf("%d:%d", c02ParamIndex(rp), c02ParamIndex(dp)), true
 			}
@@ -2149,10 +3770,49 @@ func c02ParamIndex(p *ssa.Parameter) int {
 	return -1
 }
 
+// classifyUp judges the hand-over c (in top-level function S or one of its
+// literals) in the effective body of root, which reaches S through the calls
+// of path (outermost first). When no idiom applies there and root is a helper
+// all of whose static callers can be enumerated, every caller is judged in turn.
+func (x *c02Ctx) classifyUp(root *ssa.Function, path []ssa.CallInstruction, c CallSite, dst, ref, rd ssa.Value, depth int) (idiom, detail string, ok bool) {
+	t := x.tree(root)
+	f := t.root
+	for _, call := range path {
+		if f = f.kids[call]; f == nil {
+			return "", "the helper is not part of the caller's effective body (different package, recursion or depth)", false
+		}
+	}
+	idiom, detail, ok = x.classify(t, f, c, dst, ref, rd, depth == 0)
+	if ok || depth >= 3 {
+		return
+	}
+	if root.Parent() != nil || len(x.p.FuncValueUses(root)) > 0 || len(x.p.InvokeSites(root)) > 0 {
+		return
+	}
+	var callers []CallSite
+	for _, cc := range x.p.StaticCallers(root) {
+		if !IsTestSupportPkg(RelPkg(TopFunc(cc.Fn).Pkg.Pkg)) {
+			callers = append(callers, cc)
+		}
+	}
+	if len(callers) == 0 {
+		return
+	}
+	for _, cc := range callers {
+		if cc.IsDefer() || TopFunc(cc.Fn).Pkg != root.Pkg {
+			return "", detail + "; and its caller " + FuncKey(cc.Fn) + " cannot be followed (deferred, or another package)", false
+		}
+		_, d2, ok2 := x.classifyUp(TopFunc(cc.Fn), append([]ssa.CallInstruction{cc.Instr}, path...), c, dst, ref, rd, depth+1)
+		if !ok2 {
+			return "", detail + "; judged in its caller " + FuncKey(cc.Fn) + ": " + d2, false
+		}
+	}
+	return "helper-of-verified-callers", fmt.Sprintf("a helper all of whose %d static callers establish an acceptance idiom for the values they pass in", len(callers)), true
+}
+
 func c02RuleEntry(x *c02Ctx) {
 	p, r := x.p, x.r
 	const rule = "R-entry"
-	core := p.Func("pkg/blobserver", "", "receive")
 	noHash := p.Func("pkg/blobserver", "", "ReceiveNoHash")
 	if uses := p.FuncValueUses(noHash); len(uses) > 0 {
 		r.Undecided(rule, FuncKey(noHash)+"#func-value", p.Pos(uses[0].Pos()), "ReceiveNoHash is used as a function value; its callers can no longer be enumerated")
@@ -2206,11 +3866,11 @@ func c02RuleEntry(x *c02Ctx) {
 			nsites++
 			construct := FuncKey(fn) + "#" + what + ":" + c02StablePath(dst)
 			site := p.Pos(c.Pos())
-			if top == core {
-				r.OKTable(rule, construct, site, "inside blobserver.receive: the verified core itself (R-core)")
+			if x.core[top] {
+				r.OKTable(rule, construct, site, "inside the verified core of blobserver.Receive / ReceiveNoHash (R-core)")
 				continue
 			}
-			idiom, detail, ok := x.classify(c, dst, ref, rd, true)
+			idiom, detail, ok := x.classifyUp(top, nil, c, dst, ref, rd, 0)
 			if !ok {
 				r.Violation(rule, construct, site, "unverified ingest path: bytes are handed to a store without the hash check and no acceptance idiom applies ("+detail+")")
 				continue
@@ -2219,7 +3879,7 @@ func c02RuleEntry(x *c02Ctx) {
 				r.OK(rule, construct, site, idiom+": "+detail)
 				continue
 			}
-			// the helper forwards (ref, bytes) parameters: its callers carry the obligation (bound 1)
+			// the helper forwards (ref, bytes) parameters: its callers carry the obligation
 			var ri, di int
 			fmt.Sscanf(detail, "%d:%d", &ri, &di)
 			callers := p.StaticCallers(fn)
@@ -2229,20 +3889,28 @@ func c02RuleEntry(x *c02Ctx) {
 			}
 			r.OK(rule, construct, site, fmt.Sprintf("forwarding helper: passes on its own (ref, bytes) parameters; %d callers checked below", len(callers)))
 			for _, cc := range callers {
-				if IsTestSupportPkg(RelPkg(TopFunc(cc.Fn).Pkg.Pkg)) {
+				ctop := TopFunc(cc.Fn)
+				if IsTestSupportPkg(RelPkg(ctop.Pkg.Pkg)) {
 					continue
 				}
 				nsites++
 				cas := cc.Args()
 				cconstruct := FuncKey(cc.Fn) + "#calls:" + FuncKey(fn)
-				ok, why := x.sameBytes(TopFunc(cc.Fn), cas[ri], cas[di], cc.Instr)
+				ct := x.tree(ctop)
+				ok, why := x.sameBytes(ct, ct.root, cas[ri], ct.root, cas[di], c02Loc{ct.root, cc.Instr})
+				if !ok && !cc.IsDefer() {
+					// any other idiom, judged with the helper as part of the caller's effective body
+					if id2, d2, ok2 := x.classifyUp(ctop, []ssa.CallInstruction{cc.Instr}, c, dst, ref, rd, 1); ok2 {
+						ok, why = true, id2+": "+d2
+					}
+				}
 				r.Check(ok, rule, cconstruct, p.Pos(cc.Pos()), "caller of a forwarding helper: "+why,
 					"caller of the unverified forwarding helper "+FuncKey(fn)+" does not pass a ref computed from the same bytes: "+why)
 			}
 		}
 	}
 	r.Analysed("unverified_handover_sites", nsites)
-	r.Floor(rule, 23)
+	r.Floor(rule, 20) // 24 sites today; merging two hand-overs of one function into a loop, or inlining a forwarding helper, legitimately lowers the count
 }
 
 // c02StablePath renders a destination for a construct key without SSA register names.
